@@ -12,22 +12,22 @@ func init() {
 	register(&PropSpec{
 		ID:    "C12",
 		Title: "Replicated writes are acknowledged only at quorum; reads survive replica loss",
-		Explanation: "Decided (structural necessary conditions, all in pkg/blobserver/replica, anchors resolved by role: the package's blobserver.Storage implementer and the constructor registered with RegisterStorageConstructor): " +
-			"Q-ack — in ReceiveBlob (i) one uploader is started exactly once per element of the write-replica slice with that element as destination; (ii) every uploader path sends exactly one message and the message carries the error and SizedRef of that replica's receive call; (iii) the replica receives the request's blobref and a reader created per uploader over the buffer that a successful slurp of src filled before the fan-out; (iv) the collector receives once per write replica; (v) every return with a nil error is dominated by a comparison counter==/>= sto.minWritesForSuccess (== only on the freshly incremented value); (vi) the counter is a loop-carried value starting at 0 that is only ever incremented by 1, in blocks where the current message's error is known nil and its reported size is known equal to the slurped size; (vii) the error of every other return is, on each loop arm, either known non-nil or left unchanged by an arm that counted a success; (viii) the acknowledged SizedRef is the counted replica's answer or is built from the slurped size. " +
-			"Q-read — Fetch and OpenWholeRef iterate over every element of the read-replica slice from index 0 in steps of 1, skip an element only on a failed type assertion, leave the loop early only where the current replica's error is known nil and then return that replica's reader; StatBlobs asks every read replica for all requested blobs, and the caller's fn is invoked only under one function-wide mutex, behind a positive membership test need[sb.Ref] on one function-wide map that was filled with every requested ref before the fan-out, with delete(need, sb.Ref) on the same path under the same lock; EnumerateBlobs delegates to MergedEnumerateStorage over the read-replica slice with its own ctx/dest/after/limit. " +
+		Explanation: "Decided (structural necessary conditions, all in pkg/blobserver/replica; anchors resolved by role: the package's blobserver.Storage implementer, its interface methods as entry points, and the constructor registered with RegisterStorageConstructor). Every clause is checked on the EFFECTIVE BODY of its entry point: the entry point plus, transitively (depth 6), the function literals, unexported functions/methods of the package, methods of state objects and bound method values it calls or hands on; a helper's parameter stands for its caller's argument, a helper's result for the value its (not contradicted) returns hand back, a field of a once-built state object for the only value stored there; branch facts known at a call site are known in the helper, a fact about a helper's boolean/error result implies the facts common to the returns that can produce it; 'precedes/succeeded before' is lifted across synchronous calls; a helper is entered with a mutex held when its only caller holds it. " +
+			"Q-ack — in ReceiveBlob's effective body (i) one uploader is started exactly once per element of the write-replica slice with that element as destination, and every function between the loop and the upload reaches the upload on every path; (ii) every path of the reporting worker sends exactly one message (sends of helpers counted) and the message carries the error and SizedRef of that replica's receive call; (iii) the replica receives the request's blobref and a reader created per upload over the buffer that a successful, error-checked read of src (a call outside the package taking src, not a helper taken on trust) filled before the fan-out; (iv) the collector receives once per write replica; (v) every way out with a nil error (returns of helpers whose results are handed back included) is dominated by a comparison counter==/>= sto.minWritesForSuccess (== only on the freshly incremented value); (vi) the counter is a loop-carried value starting at 0 that is only ever incremented by 1, in blocks where the current message's error is known nil and its reported size is known equal to the slurped size; (vii) the error of every other way out is, on each loop arm, either known non-nil or left unchanged by an arm that counted a success; (viii) the acknowledged SizedRef is the counted replica's answer or is built from the slurped size. " +
+			"Q-read — Fetch and OpenWholeRef iterate over every element of the read-replica slice from index 0 in steps of 1, skip an element only on a failed type assertion, leave the loop early only where the current replica's error is known nil, and where that error is known nil the reader handed back (also through a merged result variable) is that replica's; StatBlobs asks every read replica for all requested blobs, and the caller's fn is invoked only in the callback's effective body, with a mutex created once per StatBlobs call held, behind a positive membership test need[sb.Ref] on a map created once per call and filled with every requested ref before the fan-out, the mutex not being released between test and call, with delete(need, sb.Ref) on the same path under the same lock; EnumerateBlobs delegates to MergedEnumerateStorage over the read-replica slice with its own ctx/dest/after/limit. " +
 			"Q-remove — RemoveBlobs asks every write replica once, every worker reports exactly once, the collector receives once per replica, nil is returned only behind counter>0 where the counter counts only nil results, and the other return's error is set by every failing arm. " +
-			"Q-config — the registered constructor takes the quorum from config key minWritesForSuccess with default len(backends), maps a configured 0 to len(backends), rejects an empty backends list, defaults readBackends to backends before resolving them, fills the write (read) replica slice with exactly one storage per backends (readBackends) entry before any success return; every other constructor sets the quorum to the number of write replicas; no function writes a replicaStorage field of an object it did not allocate. " +
-			"NOT decided: the counting argument that the fall-through return is non-nil for every failure subset (it needs 1<=minWritesForSuccess<=len(replicas); the constructor does not reject a configured value above the replica count or below zero, which is outside the property's quantifier 1..n and is not demanded); slow or hanging replicas and timing; what replicas actually store; overlap of replica contents and the correctness of MergedEnumerateStorage itself (C01 M-dedup); that fn errors propagate; goroutine/channel capacity hygiene (C13).",
+			"Q-config — the registered constructor takes the quorum from config key minWritesForSuccess with default len(backends), maps a configured 0 to len(backends) (by a conditional field store or by a value defaulted in a local and stored afterwards), rejects an empty backends list, defaults readBackends to backends before resolving them, fills the write (read) replica slice with exactly one storage per backends (readBackends) entry — appended in place or built in a local/helper and installed — before any success return; every other entry point that builds a storage sets the quorum to the number of write replicas; a replicaStorage field is written only on an object the writing function allocated or that every caller of that unexported, never-escaping helper allocated and handed in. " +
+			"NOT decided: the counting argument that the fall-through return is non-nil for every failure subset (it needs 1<=minWritesForSuccess<=len(replicas); the constructor does not reject a configured value above the replica count or below zero, which is outside the property's quantifier 1..n and is not demanded); slow or hanging replicas and timing; what replicas actually store; overlap of replica contents and the correctness of MergedEnumerateStorage itself (C01 M-dedup); that fn errors propagate; goroutine/channel capacity hygiene (C13). Not followed (always reported, never silently passed): helpers entered from several places of one entry point, counters or returned errors threaded through a helper's parameters and results, result channels used in select, state objects reachable through unidentified aliases.",
 		RuleDocs: map[string]string{
-			"Q-ack":    "replicaStorage.ReceiveBlob: fan-out per write replica, one report per uploader carrying the replica's (SizedRef, error), right ref/bytes, collector count, nil-error returns dominated by counter vs minWritesForSuccess, counter incremented only under {err==nil, size==slurped}, other returns' error set by every non-success arm",
-			"Q-read":   "Fetch/OpenWholeRef: ordered fall-back over every read replica, early exit only on success; StatBlobs: every read replica asked, fn behind need[ref] + delete under one mutex; EnumerateBlobs: MergedEnumerateStorage over the read replicas",
-			"Q-remove": "replicaStorage.RemoveBlobs: every write replica asked once, one report per worker, collector count, nil only behind nSuccess>0 counted under err==nil",
-			"Q-config": "constructors: quorum default/zero = all replicas, >=1 backend, readBackends default, one replica per prefix before success, fields immutable after construction",
+			"Q-ack":    "replicaStorage.ReceiveBlob (effective body): fan-out per write replica, one report per uploader carrying the replica's (SizedRef, error), right ref/bytes, collector count, nil-error ways out dominated by counter vs minWritesForSuccess, counter incremented only under {err==nil, size==slurped}, other returns' error set by every non-success arm",
+			"Q-read":   "Fetch/OpenWholeRef (effective body): ordered fall-back over every read replica, early exit only on success, success hands back that replica's reader; StatBlobs: every read replica asked, fn behind need[ref] + delete under one per-call mutex held from test to call; EnumerateBlobs: MergedEnumerateStorage over the read replicas",
+			"Q-remove": "replicaStorage.RemoveBlobs (effective body): every write replica asked once, one report per worker, collector count, nil only behind nSuccess>0 counted under err==nil",
+			"Q-config": "constructors (effective body): quorum default/zero = all replicas, >=1 backend, readBackends default, one replica per prefix before success, fields written only during construction (helpers: every caller hands in an object it allocated)",
 		},
 		Run:       runC12,
 		DesignRef: "DESIGN.md §4 C12",
-		Technique: "static analysis: dominance facts on go/ssa (quorum guard, success-only counting), loop-carried value analysis of the returned error, range-loop recognition for fan-out/collect agreement, value dependence for ref/bytes, lockset for the stat de-duplication",
-		LevelText: "Decides structural necessary conditions only: a nil-error return of the replicated ReceiveBlob is dominated by the quorum comparison on a counter that counts only correctly sized, error-free replica answers, one answer per write replica; reads fall back over every read replica and leave early only on success; stat reports are de-duplicated under one lock; the constructor's defaults make the quorum 'all replicas'. Does not decide the counting argument for the fall-through error (and so not out-of-range quorum configuration), timing/slow replicas, or replica contents.",
+		Technique: "static analysis on go/ssa over the effective body of each entry point (entry point + literals, unexported helpers, state-object methods and bound method values, parameters mapped to arguments, results to returned values): dominance facts carried across calls (quorum guard, success-only counting), loop-carried value analysis of the returned error, range/counting/rotated loop recognition for fan-out/collect agreement, value dependence for ref/bytes, per-path message counting, must-hold lock analysis across calls for the stat de-duplication",
+		LevelText: "Decides structural necessary conditions only: every way the replicated ReceiveBlob returns a nil error is dominated by the quorum comparison on a counter that counts only correctly sized, error-free replica answers, one answer per write replica; reads fall back over every read replica and leave early only on success; stat reports are de-duplicated under one per-call lock; the constructor's defaults make the quorum 'all replicas'. The verdict does not depend on whether this code sits in the entry points, in closures, in unexported helpers or in methods of state objects. Does not decide the counting argument for the fall-through error (and so not out-of-range quorum configuration), timing/slow replicas, or replica contents.",
 	})
 }
 
@@ -35,10 +35,12 @@ const c12Rel = "pkg/blobserver/replica"
 
 // c12Ctx carries the anchors of the property.
 type c12Ctx struct {
-	p    *Program
-	r    *Reporter
-	typ  *types.Named // the replicated storage type
-	ctor *ssa.Function
+	p      *Program
+	r      *Reporter
+	typ    *types.Named // the replicated storage type
+	ctor   *ssa.Function
+	idx    *c12Index
+	scopes map[*ssa.Function]*c12Scope
 	// field indexes (anchored by name)
 	fMin, fWPref, fRPref, fWRep, fRRep int
 }
@@ -69,20 +71,42 @@ func c12Resolve(p *Program, r *Reporter) *c12Ctx {
 	if !ok {
 		brokenf("anchor unresolved: %s is not a struct", cx.typ)
 	}
-	field := func(name string) int {
+	// The five fields are anchored by name; after a rename they are found by
+	// role instead: the two []string fields are the write and read prefixes,
+	// the two []blobserver.Storage fields the write and read replicas (declared
+	// write before read), the only int field the quorum.
+	byName := func(name string) int {
 		for i := 0; i < st.NumFields(); i++ {
 			if st.Field(i).Name() == name {
 				return i
 			}
 		}
-		brokenf("anchor unresolved: field %s.%s", cx.typ.Obj().Name(), name)
 		return -1
 	}
-	cx.fMin = field("minWritesForSuccess")
-	cx.fWPref = field("replicaPrefixes")
-	cx.fRPref = field("readPrefixes")
-	cx.fWRep = field("replicas")
-	cx.fRRep = field("readReplicas")
+	cx.fMin, cx.fWPref, cx.fRPref = byName("minWritesForSuccess"), byName("replicaPrefixes"), byName("readPrefixes")
+	cx.fWRep, cx.fRRep = byName("replicas"), byName("readReplicas")
+	if cx.fMin < 0 || cx.fWPref < 0 || cx.fRPref < 0 || cx.fWRep < 0 || cx.fRRep < 0 {
+		storage := p.Iface("pkg/blobserver", "Storage")
+		var strs, stos, ints []int
+		for i := 0; i < st.NumFields(); i++ {
+			switch t := st.Field(i).Type().Underlying().(type) {
+			case *types.Slice:
+				if b, ok := t.Elem().Underlying().(*types.Basic); ok && b.Kind() == types.String {
+					strs = append(strs, i)
+				} else if it, ok := t.Elem().Underlying().(*types.Interface); ok && types.Identical(it, storage) {
+					stos = append(stos, i)
+				}
+			case *types.Basic:
+				if t.Kind() == types.Int {
+					ints = append(ints, i)
+				}
+			}
+		}
+		if len(strs) != 2 || len(stos) != 2 || len(ints) != 1 {
+			brokenf("anchor unresolved: fields of %s (by name: minWritesForSuccess, replicaPrefixes, readPrefixes, replicas, readReplicas; by role: two []string, two []blobserver.Storage, one int)", cx.typ.Obj().Name())
+		}
+		cx.fWPref, cx.fRPref, cx.fWRep, cx.fRRep, cx.fMin = strs[0], strs[1], stos[0], stos[1], ints[0]
+	}
 	for _, fn := range p.FuncsIn(c12Rel) {
 		for _, c := range CallsIn(fn, false) {
 			if c.IsStatic("perkeep.org/pkg/blobserver", "", "RegisterStorageConstructor") && len(c.Args()) == 2 {
@@ -125,44 +149,6 @@ func (cx *c12Ctx) fieldAddr(v ssa.Value) (int, bool) {
 	return fa.Field, true
 }
 
-// fieldLoad: v (after stripping value-preserving wrappers) is a load of a field of the storage type.
-func (cx *c12Ctx) fieldLoad(v ssa.Value) (int, bool) {
-	switch x := originValue(v).(type) {
-	case *ssa.UnOp:
-		if x.Op == token.MUL {
-			return cx.fieldAddr(x.X)
-		}
-	case *ssa.Field:
-		if cx.isObj(x.X.Type()) {
-			return x.Field, true
-		}
-	}
-	return 0, false
-}
-
-func (cx *c12Ctx) isFieldLoad(v ssa.Value, f int) bool {
-	g, ok := cx.fieldLoad(v)
-	return ok && g == f
-}
-
-// lenOfField: v is len(obj.field).
-func (cx *c12Ctx) lenOfField(v ssa.Value, f int) bool {
-	arg, ok := c12LenArg(v)
-	return ok && cx.isFieldLoad(arg, f)
-}
-
-// c12LenArg returns x when v is the builtin call len(x).
-func c12LenArg(v ssa.Value) (ssa.Value, bool) {
-	call, ok := originValue(v).(*ssa.Call)
-	if !ok {
-		return nil, false
-	}
-	if b, ok := call.Call.Value.(*ssa.Builtin); ok && b.Name() == "len" && len(call.Call.Args) == 1 {
-		return call.Call.Args[0], true
-	}
-	return nil, false
-}
-
 func c12Builtin(c CallSite, name string) bool {
 	b, ok := c.Common().Value.(*ssa.Builtin)
 	return ok && b.Name() == name
@@ -192,26 +178,6 @@ func (l *c12Loop) NormalExit() *ssa.BasicBlock {
 		return l.Latch
 	}
 	return l.Header
-}
-
-func c12Reaches(from, to *ssa.BasicBlock) bool {
-	seen := map[*ssa.BasicBlock]bool{}
-	var walk func(b *ssa.BasicBlock) bool
-	walk = func(b *ssa.BasicBlock) bool {
-		for _, s := range b.Succs {
-			if s == to {
-				return true
-			}
-			if !seen[s] {
-				seen[s] = true
-				if walk(s) {
-					return true
-				}
-			}
-		}
-		return false
-	}
-	return walk(from)
 }
 
 // c12InLoop: b belongs to the natural loop headed by h (h dominates b and b
@@ -250,6 +216,9 @@ func c12InnermostLoop(b *ssa.BasicBlock) *c12Loop {
 		if len(d.Instrs) == 0 {
 			return l
 		}
+		if c12Rotated(l); l.Latch != nil {
+			return l // test at the bottom (possibly of the header block itself)
+		}
 		ifi, ok := d.Instrs[len(d.Instrs)-1].(*ssa.If)
 		if ok && len(d.Succs) == 2 {
 			if bo, ok := ifi.Cond.(*ssa.BinOp); ok && bo.Op == token.LSS && (d.Succs[0] == b || d.Succs[0].Dominates(b)) {
@@ -259,7 +228,6 @@ func c12InnermostLoop(b *ssa.BasicBlock) *c12Loop {
 				return l
 			}
 		}
-		c12Rotated(l)
 		return l
 	}
 	return nil
@@ -484,27 +452,1354 @@ func c12Relation(f CondFact, isA func(ssa.Value) bool) (a, b ssa.Value, rel toke
 }
 
 // ---------------------------------------------------------------------------
+// Effective body of an entry point
+//
+// The rules of this property are stated about the entry points of the
+// replicated storage (the blobserver.Storage methods and the registered
+// constructor). Where the code that does the work lives is not part of the
+// property: it may sit in the entry point itself, in function literals, in
+// unexported helpers of the package, in methods of a state object, or in bound
+// method values handed to someone else. A c12Scope is the set of those
+// functions reachable from one entry point together with the machinery that
+// lets the rules reason across the calls: value resolution (a helper's
+// parameter stands for the caller's argument, a pass-through result for the
+// callee's returned value, a field of a once-built state object for the value
+// stored there), facts (what is known at the call site is known in the helper;
+// what a helper's boolean/error result implies about its arguments), ordering
+// (precedes/succeeded across calls) and lock holding.
+
+// c12Index is the package-wide call/creation index.
+type c12Index struct {
+	fns      []*ssa.Function // source functions, literals and the synthetic wrappers made in them
+	callers  map[*ssa.Function][]CallSite
+	makers   map[*ssa.Function][]*ssa.MakeClosure
+	valueUse map[*ssa.Function][]ssa.Instruction
+}
+
+func (cx *c12Ctx) index() *c12Index {
+	if cx.idx != nil {
+		return cx.idx
+	}
+	ix := &c12Index{
+		callers:  map[*ssa.Function][]CallSite{},
+		makers:   map[*ssa.Function][]*ssa.MakeClosure{},
+		valueUse: map[*ssa.Function][]ssa.Instruction{},
+	}
+	seen := map[*ssa.Function]bool{}
+	var queue []*ssa.Function
+	add := func(f *ssa.Function) {
+		if f != nil && !seen[f] && f.Blocks != nil {
+			seen[f] = true
+			queue = append(queue, f)
+		}
+	}
+	for _, f := range cx.p.FuncsIn(c12Rel) {
+		add(f)
+	}
+	for i := 0; i < len(queue); i++ {
+		f := queue[i]
+		ix.fns = append(ix.fns, f)
+		for _, a := range f.AnonFuncs {
+			add(a)
+		}
+		for _, b := range f.Blocks {
+			for _, in := range b.Instrs {
+				var calleeVal ssa.Value
+				switch x := in.(type) {
+				case ssa.CallInstruction:
+					c := CallSite{f, x}
+					if g := c.Callee(); g != nil {
+						ix.callers[g] = append(ix.callers[g], c)
+					}
+					if !x.Common().IsInvoke() {
+						calleeVal = x.Common().Value
+					}
+				case *ssa.MakeClosure:
+					if g, ok := x.Fn.(*ssa.Function); ok {
+						ix.makers[g] = append(ix.makers[g], x)
+						add(g)
+					}
+					calleeVal = x.Fn
+				}
+				for _, op := range in.Operands(nil) {
+					if *op == nil || *op == calleeVal {
+						continue
+					}
+					if fv, ok := (*op).(*ssa.Function); ok {
+						ix.valueUse[fv] = append(ix.valueUse[fv], in)
+					}
+				}
+			}
+		}
+	}
+	cx.idx = ix
+	return ix
+}
+
+// c12Enter is one way control can enter a function.
+type c12Enter struct {
+	site CallSite // the instruction that calls the function, or hands it to someone else (Instr nil: unknown)
+	kind byte     // 'c' synchronous call, 'g' go, 'd' defer, 'v' handed over as a value (run later by someone else)
+}
+
+type c12Scope struct {
+	cx  *c12Ctx
+	ix  *c12Index
+	top *ssa.Function
+	fns []*ssa.Function
+	in  map[*ssa.Function]bool
+	ent map[*ssa.Function][]c12Enter
+
+	fieldCache map[c12FieldKey]ssa.Value
+	passCache  map[c12PassKey]ssa.Value
+	busy       map[c12PassKey]bool
+}
+
+type c12FieldKey struct {
+	base  ssa.Value
+	field int
+}
+
+type c12PassKey struct {
+	call *ssa.Call
+	idx  int
+}
+
+const c12MaxDepth = 6
+
+func (cx *c12Ctx) scope(top *ssa.Function) *c12Scope {
+	if sc := cx.scopes[top]; sc != nil {
+		return sc
+	}
+	sc := &c12Scope{cx: cx, ix: cx.index(), top: top, in: map[*ssa.Function]bool{}, ent: map[*ssa.Function][]c12Enter{},
+		fieldCache: map[c12FieldKey]ssa.Value{}, passCache: map[c12PassKey]ssa.Value{}, busy: map[c12PassKey]bool{}}
+	depth := map[*ssa.Function]int{top: 0}
+	sc.in[top] = true
+	sc.fns = []*ssa.Function{top}
+	add := func(g *ssa.Function, d int) {
+		if g == nil || g.Blocks == nil || sc.in[g] || d > c12MaxDepth {
+			return
+		}
+		sc.in[g] = true
+		depth[g] = d
+		sc.fns = append(sc.fns, g)
+	}
+	for i := 0; i < len(sc.fns); i++ {
+		f := sc.fns[i]
+		d := depth[f] + 1
+		for _, b := range f.Blocks {
+			for _, in := range b.Instrs {
+				switch x := in.(type) {
+				case *ssa.MakeClosure:
+					if g, ok := x.Fn.(*ssa.Function); ok {
+						add(g, d)
+					}
+				case ssa.CallInstruction:
+					if g := (CallSite{f, x}).Callee(); g != nil && sc.helper(g) {
+						add(g, d)
+					}
+				}
+			}
+		}
+	}
+	if cx.scopes == nil {
+		cx.scopes = map[*ssa.Function]*c12Scope{}
+	}
+	cx.scopes[top] = sc
+	return sc
+}
+
+// helper: g is an unexported function or method of the entry point's package
+// (or a function literal).
+func (sc *c12Scope) helper(g *ssa.Function) bool {
+	if g == nil || g.Blocks == nil {
+		return false
+	}
+	if g.Parent() != nil {
+		return true
+	}
+	if g.Synthetic != "" || g.Pkg == nil || g.Pkg != sc.top.Pkg {
+		return false
+	}
+	return !token.IsExported(g.Name())
+}
+
+// enters lists every way control can enter g, program-wide for declared
+// functions (callers inside and outside the scope, uses as a value, bound
+// method values).
+func (sc *c12Scope) enters(g *ssa.Function) []c12Enter {
+	if e, ok := sc.ent[g]; ok {
+		return e
+	}
+	var out []c12Enter
+	for _, c := range sc.ix.callers[g] {
+		k := byte('c')
+		switch {
+		case c.IsGo():
+			k = 'g'
+		case c.IsDefer():
+			k = 'd'
+		}
+		out = append(out, c12Enter{c, k})
+	}
+	seen := map[ssa.Value]bool{}
+	var uses func(v ssa.Value, owner *ssa.Function)
+	uses = func(v ssa.Value, owner *ssa.Function) {
+		if seen[v] || v.Referrers() == nil {
+			return
+		}
+		seen[v] = true
+		for _, r := range *v.Referrers() {
+			switch r := r.(type) {
+			case ssa.CallInstruction:
+				if !r.Common().IsInvoke() && r.Common().Value == v {
+					continue // a direct call: listed among the callers
+				}
+				if sites, ok := sc.calledThroughParam(r, v); ok {
+					out = append(out, sites...) // handed to a helper that does nothing but call it
+					continue
+				}
+				out = append(out, c12Enter{CallSite{r.Parent(), r}, 'v'})
+			case *ssa.Store:
+				if r.Val == v {
+					if cell, ok := varOf(r.Addr); ok {
+						if al, ok := cell.(*ssa.Alloc); ok && plainVariable(al) {
+							followVar(al, func(ld *ssa.UnOp) { uses(ld, owner) })
+							continue
+						}
+					}
+					out = append(out, c12Enter{kind: 'v'})
+				}
+			case *ssa.DebugRef:
+			case *ssa.ChangeType:
+				uses(r, owner)
+			case *ssa.MakeInterface:
+				uses(r, owner)
+			case *ssa.Phi:
+				uses(r, owner)
+			default:
+				out = append(out, c12Enter{kind: 'v'})
+			}
+		}
+	}
+	for _, mc := range sc.ix.makers[g] {
+		uses(mc, mc.Parent())
+	}
+	for _, in := range sc.ix.valueUse[g] {
+		if ci, ok := in.(ssa.CallInstruction); ok {
+			out = append(out, c12Enter{CallSite{in.Parent(), ci}, 'v'})
+		} else {
+			out = append(out, c12Enter{kind: 'v'})
+		}
+	}
+	if g.Parent() == nil && g.Synthetic == "" && g.Signature.Recv() != nil && len(sc.cx.p.InvokeSites(g)) > 0 {
+		out = append(out, c12Enter{kind: 'v'}) // reachable through an interface
+	}
+	sc.ent[g] = out
+	return out
+}
+
+// calledThroughParam: call hands function value v to a helper of the package
+// as an argument, and the helper only ever calls that parameter: the calls of
+// the parameter are then the ways into v's function.
+func (sc *c12Scope) calledThroughParam(call ssa.CallInstruction, v ssa.Value) ([]c12Enter, bool) {
+	h := (CallSite{call.Parent(), call}).Callee()
+	if h == nil || !sc.helper(h) || call.Common().IsInvoke() {
+		return nil, false
+	}
+	var out []c12Enter
+	n := 0
+	for k, a := range call.Common().Args {
+		if a != v {
+			continue
+		}
+		n++
+		if k >= len(h.Params) || h.Params[k].Referrers() == nil {
+			return nil, false
+		}
+		for _, r := range *h.Params[k].Referrers() {
+			switch r := r.(type) {
+			case *ssa.DebugRef:
+			case ssa.CallInstruction:
+				if r.Common().IsInvoke() || r.Common().Value != ssa.Value(h.Params[k]) {
+					return nil, false
+				}
+				kind := byte('c')
+				switch r.(type) {
+				case *ssa.Go:
+					kind = 'g'
+				case *ssa.Defer:
+					kind = 'd'
+				}
+				out = append(out, c12Enter{CallSite{h, r}, kind})
+			default:
+				return nil, false
+			}
+		}
+	}
+	return out, n > 0 && len(out) > 0
+}
+
+// enter returns the only way into g when there is exactly one and it lies in
+// the scope; nil otherwise.
+func (sc *c12Scope) enter(g *ssa.Function) *c12Enter {
+	if g == sc.top {
+		return nil
+	}
+	var only *c12Enter
+	for i, e := range sc.enters(g) {
+		if e.site.Instr == nil {
+			return nil // used in a way the analysis cannot place
+		}
+		if !sc.in[e.site.Fn] {
+			continue // entered from code that is not part of this entry point's executions
+		}
+		if only != nil {
+			return nil
+		}
+		only = &sc.enters(g)[i]
+	}
+	return only
+}
+
+// chain returns the entering sites that lead from the entry point to g
+// (outermost first); ok=false when some function on the way is entered from
+// several places or from outside the scope.
+func (sc *c12Scope) chain(g *ssa.Function) (sites []c12Enter, ok bool) {
+	for i := 0; g != sc.top; i++ {
+		e := sc.enter(g)
+		if e == nil || i > 2*c12MaxDepth {
+			return nil, false
+		}
+		sites = append([]c12Enter{*e}, sites...)
+		g = e.site.Fn
+	}
+	return sites, true
+}
+
+// under: g is root or is only ever entered from functions under root.
+func (sc *c12Scope) under(g, root *ssa.Function) bool {
+	for i := 0; i <= 2*c12MaxDepth; i++ {
+		if g == root {
+			return true
+		}
+		e := sc.enter(g)
+		if e == nil {
+			return false
+		}
+		g = e.site.Fn
+	}
+	return false
+}
+
+// oncePerCall: instruction in runs at most once per call of the entry point
+// (it is not inside a loop, and neither is any call on the way to it).
+func (sc *c12Scope) oncePerCall(in ssa.Instruction) bool {
+	for i := 0; i <= 2*c12MaxDepth; i++ {
+		if c12InnermostLoop(in.Block()) != nil {
+			return false
+		}
+		if in.Parent() == sc.top {
+			return true
+		}
+		e := sc.enter(in.Parent())
+		if e == nil {
+			return false
+		}
+		in = e.site.Instr
+	}
+	return false
+}
+
+// binding returns the value bound to free variable fv where its closure (a
+// literal or a bound-method wrapper) is made.
+func (sc *c12Scope) binding(fv *ssa.FreeVar) ssa.Value {
+	fn := fv.Parent()
+	idx := -1
+	for i, f := range fn.FreeVars {
+		if f == fv {
+			idx = i
+		}
+	}
+	var found ssa.Value
+	for _, mc := range sc.ix.makers[fn] {
+		if idx < 0 || idx >= len(mc.Bindings) {
+			return nil
+		}
+		if found != nil && found != mc.Bindings[idx] {
+			return nil
+		}
+		found = mc.Bindings[idx]
+	}
+	return found
+}
+
+// argOf returns the caller's argument a helper's parameter stands for.
+func (sc *c12Scope) argOf(prm *ssa.Parameter) ssa.Value {
+	fn := prm.Parent()
+	e := sc.enter(fn)
+	if e == nil || e.kind == 'v' {
+		return nil
+	}
+	cc := e.site.Common()
+	if cc.IsInvoke() {
+		return nil
+	}
+	for k, q := range fn.Params {
+		if q == prm && k < len(cc.Args) {
+			return cc.Args[k]
+		}
+	}
+	return nil
+}
+
+// res resolves v to the value it stands for in the effective body.
+func (sc *c12Scope) res(v ssa.Value) ssa.Value { return sc.resF(v, 0, nil) }
+
+func (sc *c12Scope) resN(v ssa.Value, depth int) ssa.Value { return sc.resF(v, depth, nil) }
+
+// resAt is res at a place where facts are known: a helper's result stands for
+// the value returned by those of its returns the facts do not rule out.
+func (sc *c12Scope) resAt(v ssa.Value, facts []CondFact) ssa.Value { return sc.resF(v, 0, facts) }
+
+func (sc *c12Scope) sameValAt(a, b ssa.Value, facts []CondFact) bool {
+	if a == nil || b == nil {
+		return false
+	}
+	return a == b || sc.resAt(a, facts) == sc.resAt(b, facts)
+}
+
+func (sc *c12Scope) resF(v ssa.Value, depth int, facts []CondFact) ssa.Value {
+	if depth > 8 {
+		return v
+	}
+	for i := 0; i < 40 && v != nil; i++ {
+		v = originValue(v)
+		switch x := v.(type) {
+		case *ssa.Parameter:
+			if a := sc.argOf(x); a != nil {
+				v = a
+				continue
+			}
+		case *ssa.FreeVar:
+			if b := sc.binding(x); b != nil {
+				v = b
+				continue
+			}
+		case *ssa.UnOp:
+			if x.Op == token.MUL {
+				if r := sc.loadOf(x, depth); r != nil {
+					v = r
+					continue
+				}
+			}
+		case *ssa.Field:
+			// a field of a state object handed around by value
+			if ld, ok := sc.resF(x.X, depth+1, facts).(*ssa.UnOp); ok && ld.Op == token.MUL {
+				if al, ok := ld.X.(*ssa.Alloc); ok && !sc.cx.isObj(x.X.Type()) {
+					if r := sc.fieldValue(al, x.X.Type(), x.Field, depth); r != nil {
+						v = r
+						continue
+					}
+				}
+			}
+		case *ssa.Extract:
+			if c, ok := x.Tuple.(*ssa.Call); ok {
+				if r := sc.passThrough(c, x.Index, depth, facts); r != nil {
+					v = r
+					continue
+				}
+			}
+		case *ssa.Call:
+			if x.Call.Signature().Results().Len() == 1 {
+				if r := sc.passThrough(x, 0, depth, facts); r != nil {
+					v = r
+					continue
+				}
+			}
+		}
+		return v
+	}
+	return v
+}
+
+func (sc *c12Scope) sameVal(a, b ssa.Value) bool {
+	if a == nil || b == nil {
+		return false
+	}
+	return a == b || sc.res(a) == sc.res(b)
+}
+
+// calleeIn returns the scope function a call instruction calls, or nil.
+func (sc *c12Scope) calleeIn(c ssa.CallInstruction) *ssa.Function {
+	g := (CallSite{c.Parent(), c}).Callee()
+	if g != nil && sc.in[g] {
+		return g
+	}
+	return nil
+}
+
+// passThrough: result idx of the call is, on every return of the helper called,
+// one and the same value.
+func (sc *c12Scope) passThrough(c *ssa.Call, idx, depth int, facts []CondFact) ssa.Value {
+	g := sc.calleeIn(c)
+	if g == nil {
+		return nil
+	}
+	k := c12PassKey{c, idx}
+	if facts == nil {
+		if r, ok := sc.passCache[k]; ok {
+			return r
+		}
+	}
+	if sc.busy[k] {
+		return nil
+	}
+	sc.busy[k] = true
+	defer delete(sc.busy, k)
+	var val ssa.Value
+	n := 0
+	for _, ri := range Returns(g) {
+		if idx >= len(ri.Results) {
+			val = nil
+			break
+		}
+		if facts != nil && c12Contradicted(c, ri.Results, ri.Ret.Block(), facts) {
+			continue
+		}
+		var r ssa.Value
+		if prm, ok := originValue(ri.Results[idx]).(*ssa.Parameter); ok && prm.Parent() == g && !c.Call.IsInvoke() {
+			// the helper hands back one of its parameters: at this call, that is this call's argument
+			for i, q := range g.Params {
+				if q == prm && i < len(c.Call.Args) {
+					r = sc.resN(c.Call.Args[i], depth+1)
+				}
+			}
+		}
+		if r == nil {
+			r = sc.resN(ri.Results[idx], depth+1)
+		}
+		if n > 0 && r != val {
+			val = nil
+			break
+		}
+		val = r
+		n++
+	}
+	if _, isConst := val.(*ssa.Const); isConst {
+		val = nil // a constant result says nothing about identity
+	}
+	if facts == nil {
+		sc.passCache[k] = val
+	}
+	return val
+}
+
+// loadOf resolves a load of a field of a state object (a struct built in the
+// scope) to the only value ever stored in that field of that object.
+func (sc *c12Scope) loadOf(ld *ssa.UnOp, depth int) ssa.Value {
+	fa, ok := ld.X.(*ssa.FieldAddr)
+	if !ok {
+		return nil
+	}
+	if sc.cx.isObj(fa.X.Type()) {
+		return nil // the storage object's own fields are the anchors: they stay symbolic
+	}
+	base, ok := sc.resN(fa.X, depth+1).(*ssa.Alloc)
+	if !ok {
+		return nil
+	}
+	return sc.fieldValue(base, fa.X.Type(), fa.Field, depth)
+}
+
+// fieldValue: the only value ever stored in field of the object base.
+func (sc *c12Scope) fieldValue(base *ssa.Alloc, typ types.Type, field, depth int) ssa.Value {
+	k := c12FieldKey{base, field}
+	if r, ok := sc.fieldCache[k]; ok {
+		return r
+	}
+	sc.fieldCache[k] = nil
+	st := c12StructOf(typ)
+	if st == nil {
+		return nil
+	}
+	var val ssa.Value
+	var whole *ssa.Store
+	n := 0
+	for _, f := range sc.ix.fns {
+		for _, b := range f.Blocks {
+			for _, in := range b.Instrs {
+				s, ok := in.(*ssa.Store)
+				if !ok {
+					continue
+				}
+				switch a := s.Addr.(type) {
+				case *ssa.FieldAddr:
+					if a.Field != field || c12StructOf(a.X.Type()) == nil || !types.Identical(c12StructOf(a.X.Type()), st) {
+						continue
+					}
+					switch o := sc.resN(a.X, depth+1).(type) {
+					case *ssa.Alloc:
+						if o == base {
+							n++
+							val = s.Val
+						}
+					default:
+						n += 2 // a store through an object the analysis cannot identify
+					}
+				case *ssa.Alloc:
+					if a == base && !c12ZeroStore(s) {
+						n += 2 // the whole object is overwritten
+						whole = s
+					}
+				}
+			}
+		}
+	}
+	if n == 2 && whole != nil && depth < 6 {
+		// base is a copy of another object (`*base = *other`, a value receiver):
+		// its field is the other object's field
+		if ld, ok := sc.resN(whole.Val, depth+1).(*ssa.UnOp); ok && ld.Op == token.MUL {
+			if al, ok := ld.X.(*ssa.Alloc); ok && al != base {
+				val = sc.fieldValue(al, typ, field, depth+1)
+				sc.fieldCache[k] = val
+				return val
+			}
+		}
+	}
+	if n != 1 {
+		return nil
+	}
+	sc.fieldCache[k] = val
+	return val
+}
+
+// c12ZeroStore: the store writes a zero value literal (`*p = T{}` initialisation).
+func c12ZeroStore(s *ssa.Store) bool {
+	c, ok := s.Val.(*ssa.Const)
+	return ok && c.Value == nil
+}
+
+func c12StructOf(t types.Type) *types.Struct {
+	if pt, ok := t.Underlying().(*types.Pointer); ok {
+		t = pt.Elem()
+	}
+	st, _ := t.Underlying().(*types.Struct)
+	return st
+}
+
+// c12Cell identifies a memory cell across the functions of a scope: a variable
+// or a field path of an object.
+type c12Cell struct {
+	root ssa.Value
+	path string
+}
+
+func (sc *c12Scope) cell(addr ssa.Value) (c12Cell, bool) {
+	path := ""
+	for i := 0; i < 8; i++ {
+		a := addr
+		switch x := a.(type) {
+		case *ssa.Parameter, *ssa.FreeVar, *ssa.UnOp, *ssa.Phi, *ssa.ChangeType:
+			a = sc.res(x)
+		}
+		switch x := a.(type) {
+		case *ssa.FieldAddr:
+			path = fmt.Sprintf(".%d%s", x.Field, path)
+			addr = x.X
+			continue
+		case *ssa.Alloc:
+			return c12Cell{x, path}, true
+		case *ssa.Global:
+			return c12Cell{x, path}, true
+		case *ssa.Parameter:
+			return c12Cell{x, path}, true
+		case *ssa.FreeVar:
+			return c12Cell{x, path}, true
+		}
+		return c12Cell{}, false
+	}
+	return c12Cell{}, false
+}
+
+// dependsOn is DependsOn across the calls of the scope.
+func (sc *c12Scope) dependsOn(v ssa.Value, target func(ssa.Value) bool) bool {
+	seen := map[ssa.Value]bool{}
+	var walk func(v ssa.Value, depth int) bool
+	walk = func(v ssa.Value, depth int) bool {
+		if v == nil || seen[v] || depth > 80 {
+			return false
+		}
+		seen[v] = true
+		if target(v) {
+			return true
+		}
+		switch x := v.(type) {
+		case *ssa.Parameter:
+			if a := sc.argOf(x); a != nil {
+				return walk(a, depth+1)
+			}
+			return false
+		case *ssa.FreeVar:
+			if b := sc.binding(x); b != nil {
+				return walk(b, depth+1)
+			}
+			return false
+		case *ssa.UnOp:
+			if x.Op == token.MUL {
+				if r := sc.loadOf(x, 0); r != nil && walk(r, depth+1) {
+					return true
+				}
+				if cell, ok := varOf(x.X); ok {
+					if cell != x.X && target(cell) {
+						return true
+					}
+					for _, st := range storesTo(cell) {
+						if walk(st.Val, depth+1) {
+							return true
+						}
+					}
+				}
+			}
+		case *ssa.Extract:
+			if c, ok := x.Tuple.(*ssa.Call); ok {
+				if g := sc.calleeIn(c); g != nil {
+					for _, ri := range Returns(g) {
+						if x.Index < len(ri.Results) && walk(ri.Results[x.Index], depth+1) {
+							return true
+						}
+					}
+				}
+			}
+		case *ssa.Call:
+			if g := sc.calleeIn(x); g != nil && x.Call.Signature().Results().Len() == 1 {
+				for _, ri := range Returns(g) {
+					if len(ri.Results) == 1 && walk(ri.Results[0], depth+1) {
+						return true
+					}
+				}
+			}
+		}
+		if in, ok := v.(ssa.Instruction); ok {
+			for _, op := range in.Operands(nil) {
+				if *op != nil && walk(*op, depth+1) {
+					return true
+				}
+			}
+		}
+		return false
+	}
+	return walk(v, 0)
+}
+
+// --- facts across calls
+
+// factsAt: the branch conditions known at block b — those of b's own function,
+// those known where b's function is entered (they are statements about
+// immutable SSA values, so they still hold), and what the results of helper
+// calls among them imply.
+func (sc *c12Scope) factsAt(b *ssa.BasicBlock) []CondFact {
+	return sc.closeFacts(sc.rawFactsAt(b, 0))
+}
+
+func (sc *c12Scope) edgeFacts(pred, succ *ssa.BasicBlock) []CondFact {
+	out := c12EdgeFacts(pred, succ)
+	if e := sc.enter(pred.Parent()); e != nil {
+		out = append(out, sc.rawFactsAt(e.site.Block(), 1)...)
+	}
+	return sc.closeFacts(out)
+}
+
+func (sc *c12Scope) rawFactsAt(b *ssa.BasicBlock, depth int) []CondFact {
+	out := FactsAt(b)
+	if depth < 2*c12MaxDepth {
+		if e := sc.enter(b.Parent()); e != nil {
+			out = append(out, sc.rawFactsAt(e.site.Block(), depth+1)...)
+		}
+	}
+	return out
+}
+
+// closeFacts adds, for every fact about the result of a call of a scope
+// helper (`h(x)` true/false, `h(x) == nil`), the facts that hold on every
+// return of h that can produce that result.
+func (sc *c12Scope) closeFacts(facts []CondFact) []CondFact {
+	seen := map[ssa.Value]bool{}
+	for i := 0; i < len(facts) && i < 200; i++ {
+		cond, val := c12StripNot(facts[i].Cond, facts[i].Val)
+		var call *ssa.Call
+		idx := 0
+		want := byte(0)
+		pick := func(v ssa.Value) bool {
+			switch x := originValue(v).(type) {
+			case *ssa.Call:
+				if x.Call.Signature().Results().Len() == 1 {
+					call, idx = x, 0
+					return true
+				}
+			case *ssa.Extract:
+				if c, ok := x.Tuple.(*ssa.Call); ok {
+					call, idx = c, x.Index
+					return true
+				}
+			}
+			return false
+		}
+		if bo, ok := cond.(*ssa.BinOp); ok && (bo.Op == token.EQL || bo.Op == token.NEQ) {
+			var other ssa.Value
+			switch {
+			case IsNilConst(bo.Y):
+				other = bo.X
+			case IsNilConst(bo.X):
+				other = bo.Y
+			}
+			if other != nil && (bo.Op == token.EQL) == val && pick(other) {
+				want = 'n'
+			}
+		} else if pick(cond) {
+			want = 'f'
+			if val {
+				want = 't'
+			}
+		}
+		if want == 0 || call == nil || seen[cond] {
+			continue
+		}
+		seen[cond] = true
+		g := sc.calleeIn(call)
+		if g == nil {
+			continue
+		}
+		facts = append(facts, sc.impliedBy(g, idx, want, 0)...)
+	}
+	return facts
+}
+
+// impliedBy: the facts (in g's own values) common to every return of g whose
+// result idx may be nil ('n'), true ('t') or false ('f').
+func (sc *c12Scope) impliedBy(g *ssa.Function, idx int, want byte, depth int) []CondFact {
+	if depth > 3 {
+		return nil
+	}
+	type leaf struct{ facts []CondFact }
+	var leaves []leaf
+	var expand func(v ssa.Value, at *ssa.BasicBlock, facts []CondFact, d int)
+	expand = func(v ssa.Value, at *ssa.BasicBlock, facts []CondFact, d int) {
+		if c, ok := v.(*ssa.Const); ok {
+			switch want {
+			case 'n':
+				if c.Value != nil {
+					return
+				}
+			case 't', 'f':
+				if c.Value == nil || (c.Value.String() == "true") != (want == 't') {
+					return
+				}
+			}
+			leaves = append(leaves, leaf{facts})
+			return
+		}
+		if want == 'n' {
+			if isNonNilErrorExpr(v) {
+				return
+			}
+			if k, isNil := c12NilFact(facts, func(o ssa.Value) bool { return c12SameRead(o, v) }); k && !isNil {
+				return
+			}
+		}
+		if ph, ok := v.(*ssa.Phi); ok && d < 6 {
+			for i, e := range ph.Edges {
+				pred := ph.Block().Preds[i]
+				expand(e, pred, c12EdgeFacts(pred, ph.Block()), d+1)
+			}
+			return
+		}
+		fs := append([]CondFact(nil), facts...)
+		switch want {
+		case 't':
+			fs = append(fs, CondFact{v, true, at})
+		case 'f':
+			fs = append(fs, CondFact{v, false, at})
+		}
+		// a result handed through from another helper
+		switch x := originValue(v).(type) {
+		case *ssa.Call:
+			if h := sc.calleeIn(x); h != nil && x.Call.Signature().Results().Len() == 1 {
+				fs = append(fs, sc.impliedBy(h, 0, want, depth+1)...)
+			}
+		case *ssa.Extract:
+			if c, ok := x.Tuple.(*ssa.Call); ok {
+				if h := sc.calleeIn(c); h != nil {
+					fs = append(fs, sc.impliedBy(h, x.Index, want, depth+1)...)
+				}
+			}
+		}
+		leaves = append(leaves, leaf{fs})
+	}
+	for _, ri := range Returns(g) {
+		if idx < len(ri.Results) {
+			expand(ri.Results[idx], ri.Ret.Block(), FactsAt(ri.Ret.Block()), 0)
+		}
+	}
+	if len(leaves) == 0 {
+		return nil
+	}
+	type fk struct {
+		c ssa.Value
+		v bool
+	}
+	count := map[fk]int{}
+	for _, l := range leaves {
+		dup := map[fk]bool{}
+		for _, f := range l.facts {
+			k := fk{f.Cond, f.Val}
+			if !dup[k] {
+				dup[k] = true
+				count[k]++
+			}
+		}
+	}
+	var out []CondFact
+	for _, f := range leaves[0].facts {
+		if count[fk{f.Cond, f.Val}] == len(leaves) {
+			out = append(out, f)
+			count[fk{f.Cond, f.Val}] = -1
+		}
+	}
+	return out
+}
+
+// c12PhiLeaf is a non-phi value that reaches a merge point, with what is known
+// on the way it comes in.
+type c12PhiLeaf struct {
+	val   ssa.Value
+	facts []CondFact
+}
+
+// phiLeaves expands v through the phis that merge the arms of conditionals
+// (a value defaulted in a local before it is used); facts are those at block at
+// for a value that is not a phi.
+func (sc *c12Scope) phiLeaves(v ssa.Value, at *ssa.BasicBlock) []c12PhiLeaf {
+	var out []c12PhiLeaf
+	seen := map[*ssa.Phi]bool{}
+	var walk func(v ssa.Value, facts []CondFact, depth int)
+	walk = func(v ssa.Value, facts []CondFact, depth int) {
+		if ph, ok := v.(*ssa.Phi); ok && depth < 8 {
+			if seen[ph] {
+				return
+			}
+			seen[ph] = true
+			for i, e := range ph.Edges {
+				pred := ph.Block().Preds[i]
+				walk(e, sc.edgeFacts(pred, ph.Block()), depth+1)
+			}
+			return
+		}
+		out = append(out, c12PhiLeaf{v, facts})
+	}
+	walk(v, sc.factsAt(at), 0)
+	return out
+}
+
+// --- ordering across calls
+
+// precedes: a has executed (and, where it sits in a helper that reports
+// errors, that helper has reported none) on every path that reaches b.
+func (sc *c12Scope) precedes(a, b ssa.Instruction) bool { return sc.precedesN(a, b, 0) }
+
+func (sc *c12Scope) precedesN(a, b ssa.Instruction, depth int) bool {
+	if depth > 2*c12MaxDepth {
+		return false
+	}
+	if a.Parent() == b.Parent() {
+		return Precedes(a, b)
+	}
+	// b sits in a helper: whatever precedes the way in precedes b
+	if e := sc.enter(b.Parent()); e != nil && b.Parent() != sc.top {
+		if e.site.Instr == a || sc.precedesN(a, e.site.Instr, depth+1) {
+			return true
+		}
+	}
+	// a sits in a helper that is called synchronously: a precedes every return
+	// of the helper that is compatible with what is known at b about the
+	// call's results, and the call precedes b
+	if e := sc.enter(a.Parent()); e != nil && e.kind == 'c' && a.Parent() != sc.top {
+		call := e.site.Value()
+		if call == nil {
+			return false
+		}
+		facts := sc.factsAt(b.Block())
+		for _, ri := range Returns(a.Parent()) {
+			if ssa.Instruction(ri.Ret) == a || Precedes(a, ri.Ret) || c12Contradicted(call, ri.Results, ri.Ret.Block(), facts) {
+				continue
+			}
+			return false
+		}
+		return sc.precedesN(call, b, depth+1)
+	}
+	return false
+}
+
+// c12CallOf: v is result idx of call (looking through value-preserving wrappers).
+func c12CallOf(v ssa.Value) (*ssa.Call, int) {
+	switch x := originValue(v).(type) {
+	case *ssa.Call:
+		if x.Call.Signature().Results().Len() == 1 {
+			return x, 0
+		}
+	case *ssa.Extract:
+		if c, ok := x.Tuple.(*ssa.Call); ok {
+			return c, x.Index
+		}
+	}
+	return nil, 0
+}
+
+// c12Contradicted: a return of call's callee with the given results (at block
+// at of the callee; nil when the results come from further down) cannot be the
+// one taken, given facts known in the caller about the call's results: a
+// boolean result known true/false against a constant, an error result known
+// nil against a value that is never nil (and the reverse).
+func c12Contradicted(call *ssa.Call, results []ssa.Value, at *ssa.BasicBlock, facts []CondFact) bool {
+	nonNil := func(r ssa.Value) bool {
+		if isNonNilErrorExpr(r) {
+			return true
+		}
+		if at != nil {
+			if c12KnownNonNil(at, r) {
+				return true
+			}
+		}
+		return false
+	}
+	for _, f := range facts {
+		cond, val := c12StripNot(f.Cond, f.Val)
+		if c, j := c12CallOf(cond); c == call && j < len(results) {
+			if k, ok := results[j].(*ssa.Const); ok && k.Value != nil && (k.Value.String() == "true") != val {
+				return true
+			}
+		}
+		bo, ok := cond.(*ssa.BinOp)
+		if !ok || (bo.Op != token.EQL && bo.Op != token.NEQ) {
+			continue
+		}
+		var other ssa.Value
+		switch {
+		case IsNilConst(bo.Y):
+			other = bo.X
+		case IsNilConst(bo.X):
+			other = bo.Y
+		}
+		if other == nil {
+			continue
+		}
+		if c, j := c12CallOf(other); c == call && j < len(results) {
+			isNil := (bo.Op == token.EQL) == val
+			r := results[j]
+			if IsNilConst(r) && !isNil {
+				return true
+			}
+			if isNil && nonNil(r) {
+				return true
+			}
+		}
+	}
+	return false
+}
+
+// succeededBefore: call c has returned without error on every path to site.
+func (sc *c12Scope) succeededBefore(c *ssa.Call, site ssa.Instruction) bool {
+	return sc.succeededN(c, site, 0)
+}
+
+func (sc *c12Scope) succeededN(c *ssa.Call, site ssa.Instruction, depth int) bool {
+	ev, hasErr, discarded := ErrValue(c)
+	if !hasErr {
+		return sc.precedes(c, site)
+	}
+	if discarded {
+		return false
+	}
+	if sc.precedes(c, site) {
+		if k, isNil := c12NilFact(sc.factsAt(site.Block()), func(o ssa.Value) bool { return sc.sameVal(o, ev) }); k && isNil {
+			return true
+		}
+	}
+	// c sits in a helper called synchronously: every return of the helper that
+	// may report success lies on c's err==nil edge (or hands back c's own
+	// error), and the helper's call has succeeded before site
+	g := c.Parent()
+	if g == sc.top || depth > 2*c12MaxDepth {
+		return false
+	}
+	e := sc.enter(g)
+	if e == nil || e.kind != 'c' || e.site.Value() == nil {
+		return false
+	}
+	errIdx := ErrResultIndex(g)
+	for _, ri := range Returns(g) {
+		if errIdx >= 0 {
+			v := ri.Results[errIdx]
+			if isNonNilErrorExpr(v) || c12KnownNonNil(ri.Ret.Block(), v) {
+				continue
+			}
+			if sameOriginStrict(v, ev) {
+				continue
+			}
+		}
+		if s, _ := SuccessDominates(c, ri.Ret); !s {
+			return false
+		}
+	}
+	if errIdx >= 0 {
+		return sc.succeededN(e.site.Value(), site, depth+1)
+	}
+	return sc.precedes(e.site.Value(), site)
+}
+
+// --- lock holding across calls
+
+func c12MutexOp(c CallSite) (kind string, addr ssa.Value, ok bool) {
+	for _, m := range []string{"Lock", "Unlock", "RLock", "RUnlock"} {
+		if c.IsStatic("sync", "Mutex", m) || c.IsStatic("sync", "RWMutex", m) {
+			return m, c.Args()[0], true
+		}
+	}
+	return "", nil, false
+}
+
+// holds: the mutex in cell lock is write-held on every path to at, counting
+// from the entry of root (entered without the lock). A helper is entered with
+// the lock held when its only caller holds it at the call.
+func (sc *c12Scope) holds(at ssa.Instruction, lock c12Cell, root *ssa.Function, depth int) bool {
+	fn := at.Parent()
+	entry := false
+	if fn != root && depth < 2*c12MaxDepth {
+		if e := sc.enter(fn); e != nil && e.kind == 'c' {
+			entry = sc.holds(e.site.Instr, lock, root, depth+1)
+		}
+	}
+	held, found, _ := sc.lockFlow(fn, lock, entry, at, 0)
+	return found && held
+}
+
+// lockFlow runs the must-hold analysis of one mutex through fn entered with
+// state entry: atState is the state before instruction at (found when it was
+// reached), exit the state after fn has returned (deferred unlocks applied).
+// Calls of helpers of the scope are followed.
+func (sc *c12Scope) lockFlow(fn *ssa.Function, lock c12Cell, entry bool, at ssa.Instruction, depth int) (atState, found, exit bool) {
+	if len(fn.Blocks) == 0 || depth > c12MaxDepth {
+		return false, false, false
+	}
+	isOp := func(c CallSite) (string, bool) {
+		if k, addr, ok := c12MutexOp(c); ok {
+			if cl, ok := sc.cell(addr); ok && cl == lock {
+				return k, true
+			}
+		}
+		return "", false
+	}
+	in := map[*ssa.BasicBlock]bool{}
+	known := map[*ssa.BasicBlock]bool{}
+	in[fn.Blocks[0]], known[fn.Blocks[0]] = entry, true
+	exit = true
+	deferredUnlock := false
+	transfer := func(b *ssa.BasicBlock, record bool) bool {
+		cur := in[b]
+		for _, ins := range b.Instrs {
+			if record && ins == at {
+				atState, found = cur, true
+			}
+			if record {
+				if _, ok := ins.(*ssa.Return); ok && !cur {
+					exit = false
+				}
+			}
+			ci, ok := ins.(ssa.CallInstruction)
+			if !ok {
+				continue
+			}
+			c := CallSite{fn, ci}
+			if c.IsGo() {
+				continue
+			}
+			if c.IsDefer() {
+				if k, ok := isOp(c); ok && k == "Unlock" {
+					deferredUnlock = true
+				} else if g := sc.calleeIn(ci); g != nil {
+					// a deferred helper/literal that may unlock
+					if _, _, out := sc.lockFlow(g, lock, true, nil, depth+1); !out {
+						deferredUnlock = true
+					}
+				}
+				continue
+			}
+			if k, ok := isOp(c); ok {
+				switch k {
+				case "Lock":
+					cur = true
+				case "Unlock":
+					cur = false
+				}
+				continue
+			}
+			if g := sc.calleeIn(ci); g != nil {
+				_, _, cur = sc.lockFlow(g, lock, cur, nil, depth+1)
+			}
+		}
+		return cur
+	}
+	for changed, n := true, 0; changed && n < 64; n++ {
+		changed = false
+		for _, b := range fn.Blocks {
+			if !known[b] {
+				continue
+			}
+			o := transfer(b, false)
+			for _, s := range b.Succs {
+				if !known[s] {
+					known[s], in[s], changed = true, o, true
+				} else if in[s] && !o {
+					in[s], changed = false, true
+				}
+			}
+		}
+	}
+	for _, b := range fn.Blocks {
+		if known[b] {
+			transfer(b, true)
+		}
+	}
+	if deferredUnlock {
+		exit = false
+	}
+	return atState, found, exit
+}
+
+// heldFromTo: the mutex in cell lock is not released on any path from a to b
+// (a and b in one function, or one of them in a helper called synchronously on
+// the way).
+func (sc *c12Scope) heldFromTo(a, b ssa.Instruction, lock c12Cell, depth int) bool {
+	if depth > 2*c12MaxDepth {
+		return false
+	}
+	var releases func(in ssa.Instruction, d int) bool
+	releases = func(in ssa.Instruction, d int) bool {
+		ci, ok := in.(ssa.CallInstruction)
+		if !ok {
+			return false
+		}
+		c := CallSite{in.Parent(), ci}
+		if c.IsDefer() || c.IsGo() {
+			return false
+		}
+		if k, addr, ok := c12MutexOp(c); ok {
+			cl, ok := sc.cell(addr)
+			return k == "Unlock" && ok && cl == lock
+		}
+		if g := sc.calleeIn(ci); g != nil && d < c12MaxDepth {
+			for _, b := range g.Blocks {
+				for _, x := range b.Instrs {
+					if releases(x, d+1) {
+						return true
+					}
+				}
+			}
+		}
+		return false
+	}
+	clean := func(set map[ssa.Instruction]bool) bool {
+		for in := range set {
+			if releases(in, 0) {
+				return false
+			}
+		}
+		return true
+	}
+	// between: the instructions on some path from x to y (one function)
+	between := func(x, y ssa.Instruction) map[ssa.Instruction]bool {
+		out := map[ssa.Instruction]bool{}
+		toY := map[*ssa.BasicBlock]bool{}
+		var back func(b *ssa.BasicBlock)
+		back = func(b *ssa.BasicBlock) {
+			for _, p := range b.Preds {
+				if !toY[p] {
+					toY[p] = true
+					back(p)
+				}
+			}
+		}
+		back(y.Block())
+		for in := range ReachableFrom(x, func(in ssa.Instruction) bool { return in == y }) {
+			if toY[in.Block()] || in.Block() == y.Block() && instrIndex(in) < instrIndex(y) {
+				out[in] = true
+			}
+		}
+		return out
+	}
+	if a.Parent() == b.Parent() {
+		return clean(between(a, b))
+	}
+	if sc.under(a.Parent(), b.Parent()) {
+		// a sits in a helper called on the way to b: nothing after a in the helper releases
+		e := sc.enter(a.Parent())
+		if e == nil || e.kind != 'c' {
+			return false
+		}
+		return clean(ReachableFrom(a, nil)) && sc.heldFromTo(e.site.Instr, b, lock, depth+1)
+	}
+	if sc.under(b.Parent(), a.Parent()) {
+		// b sits in a helper called after a: nothing from the helper's entry to b releases
+		e := sc.enter(b.Parent())
+		if e == nil || e.kind != 'c' {
+			return false
+		}
+		first := b.Parent().Blocks[0].Instrs[0]
+		if first != b {
+			if releases(first, 0) || !clean(between(first, b)) {
+				return false
+			}
+		}
+		return sc.heldFromTo(a, e.site.Instr, lock, depth+1)
+	}
+	// siblings: lift a
+	e := sc.enter(a.Parent())
+	if e == nil || e.kind != 'c' {
+		return false
+	}
+	return clean(ReachableFrom(a, nil)) && sc.heldFromTo(e.site.Instr, b, lock, depth+1)
+}
+
+// ---------------------------------------------------------------------------
 // Reads of a received message
 
 // c12Msg describes the value received from the result channel in one iteration.
 type c12Msg struct {
+	sc   *c12Scope
 	recv *ssa.UnOp // <-ch
 }
 
 // field reports which field of the message v reads (-1: the whole message),
 // resolving `res := <-ch; ... res.f` through the local variable provided no
-// store to that field (or to the whole variable) lies between.
-func (m *c12Msg) field(v ssa.Value) (int, bool) {
+// store to that field (or to the whole variable) lies between, and through a
+// helper's parameter to which the message is handed.
+func (m *c12Msg) field(v ssa.Value) (int, bool) { return m.fieldN(v, 0) }
+
+func (m *c12Msg) fieldN(v ssa.Value, depth int) (int, bool) {
+	if depth > 10 {
+		return 0, false
+	}
 	if v == ssa.Value(m.recv) {
 		return -1, true
 	}
 	switch x := v.(type) {
 	case *ssa.Field:
-		if x.X == ssa.Value(m.recv) {
+		if f, ok := m.fieldN(x.X, depth+1); ok && f == -1 {
 			return x.Field, true
 		}
-		if f, ok := m.field(x.X); ok && f == -1 {
-			return x.Field, true
+	case *ssa.Parameter:
+		if a := m.sc.argOf(x); a != nil {
+			return m.fieldN(a, depth+1)
 		}
 	case *ssa.UnOp:
 		if x.Op != token.MUL {
@@ -518,7 +1813,7 @@ func (m *c12Msg) field(v ssa.Value) (int, bool) {
 			}
 			top, ad = fa.Field, fa.X
 		}
-		if al, ok := ad.(*ssa.Alloc); ok && m.cleanSince(al, top, x) {
+		if al, ok := ad.(*ssa.Alloc); ok && m.cleanSince(al, top, x, depth) {
 			return top, true
 		}
 	}
@@ -528,7 +1823,7 @@ func (m *c12Msg) field(v ssa.Value) (int, bool) {
 // cleanSince: local variable al holds the received message at load (the store
 // of the received value precedes the load and no later store to the field /
 // whole variable can reach the load), and al's address does not escape.
-func (m *c12Msg) cleanSince(al *ssa.Alloc, field int, load ssa.Instruction) bool {
+func (m *c12Msg) cleanSince(al *ssa.Alloc, field int, load ssa.Instruction, depth int) bool {
 	var s0 *ssa.Store
 	var others []*ssa.Store
 	escapes := false
@@ -543,7 +1838,15 @@ func (m *c12Msg) cleanSince(al *ssa.Alloc, field int, load ssa.Instruction) bool
 			case *ssa.Store:
 				if r.Addr != addr {
 					escapes = true
-				} else if fld == -1 && r.Val == ssa.Value(m.recv) && Precedes(r, load) {
+					continue
+				}
+				whole := false
+				if fld == -1 && Precedes(r, load) {
+					if f, ok := m.fieldN(r.Val, depth+1); ok && f == -1 {
+						whole = true
+					}
+				}
+				if whole {
 					s0 = r
 				} else if fld == -1 || field == -1 || fld == field {
 					others = append(others, r)
@@ -595,13 +1898,17 @@ func c12Site(p *Program, in ssa.Instruction) string {
 // Fan-out / collect protocol shared by ReceiveBlob, RemoveBlobs and StatBlobs
 
 type c12Fan struct {
+	sc     *c12Scope
 	top    *ssa.Function
 	op     CallSite      // the per-replica operation
-	worker *ssa.Function // function containing op
-	spawn  CallSite      // instruction of top that starts worker (== op when worker == top)
+	chain  []c12Enter    // the entering sites leading from top to op's function
+	loopFn *ssa.Function // function holding the loop over the replica slice
+	spawn  CallSite      // instruction of loopFn that leads to op (== op when op sits in loopFn)
+	below  []CallSite    // the sites after spawn on the way to op, ending with op (empty when spawn == op)
 	elem   *ssa.UnOp     // load of &slice[idx]: the replica the operation acts on
 	loop   *c12Loop      // loop around spawn
 	// channel protocol (nil ch: none found)
+	worker   *ssa.Function // function that reports the operation's result on the channel
 	ch       *ssa.MakeChan
 	sends    []*ssa.Send
 	errField int // message field carrying op's error (-1: the message is the error)
@@ -610,10 +1917,24 @@ type c12Fan struct {
 	recvLoop *c12Loop
 }
 
-// c12StripAssert looks through `v.(T)` / `v, ok := v.(T)`.
-func c12StripAssert(v ssa.Value) ssa.Value {
-	for i := 0; i < 4; i++ {
-		v = originValue(v)
+// onWay: f is one of the functions from loopFn down to op's function.
+func (fan *c12Fan) onWay(f *ssa.Function) bool {
+	if f == fan.spawn.Fn {
+		return true
+	}
+	for _, c := range fan.below {
+		if c.Fn == f {
+			return true
+		}
+	}
+	return false
+}
+
+// elemOrigin follows v back to a load of &slice[idx], through captured
+// per-iteration variables, type assertions, parameters and state objects.
+func (sc *c12Scope) elemOrigin(v ssa.Value) *ssa.UnOp {
+	for i := 0; i < 8; i++ {
+		v = sc.res(v)
 		switch x := v.(type) {
 		case *ssa.Extract:
 			if ta, ok := x.Tuple.(*ssa.TypeAssert); ok && x.Index == 0 {
@@ -623,109 +1944,91 @@ func c12StripAssert(v ssa.Value) ssa.Value {
 		case *ssa.TypeAssert:
 			v = x.X
 			continue
-		}
-		return v
-	}
-	return v
-}
-
-// c12CallsOf lists the instructions of parent (not nested) that call, go, defer or
-// hand to a spawner the function literal lit.
-func c12CallsOf(parent, lit *ssa.Function) []CallSite {
-	var out []CallSite
-	for _, c := range CallsIn(parent, false) {
-		if c.Callee() == lit {
-			out = append(out, c)
-			continue
-		}
-		for _, f := range FuncArgClosures(c) {
-			if f == lit {
-				out = append(out, c)
-			}
-		}
-	}
-	return out
-}
-
-// c12ElemOrigin follows v back to a load of &slice[idx], through captured
-// per-iteration variables, type assertions and parameters of a function
-// literal with a single call site.
-func c12ElemOrigin(v ssa.Value) *ssa.UnOp {
-	for i := 0; i < 6; i++ {
-		v = c12StripAssert(v)
-		switch x := v.(type) {
 		case *ssa.UnOp:
 			if x.Op == token.MUL {
 				if _, ok := x.X.(*ssa.IndexAddr); ok {
 					return x
 				}
 			}
-			return nil
-		case *ssa.Parameter:
-			f := x.Parent()
-			if f.Parent() == nil {
-				return nil
-			}
-			idx := -1
-			for k, prm := range f.Params {
-				if prm == x {
-					idx = k
-				}
-			}
-			var sites []CallSite
-			for _, c := range CallsIn(f.Parent(), false) {
-				if c.Callee() == f {
-					sites = append(sites, c)
-				}
-			}
-			if idx < 0 || len(sites) != 1 || idx >= len(sites[0].Common().Args) {
-				return nil
-			}
-			v = sites[0].Common().Args[idx]
-		default:
-			return nil
 		}
+		return nil
 	}
 	return nil
 }
 
-// c12FindFan resolves the operation, its worker, the spawn site and the
-// element it acts on. problem != "" when the shape is not understood.
-func c12FindFan(top *ssa.Function, isOp func(CallSite) bool, dstOf func(CallSite) ssa.Value) (fan *c12Fan, problem string, missing bool) {
-	ops := FindCalls(top, true, isOp)
+// c12FindFan resolves the operation, the way to it from the entry point and
+// the element it acts on. problem != "" when the shape is not understood.
+func c12FindFan(sc *c12Scope, isOp func(CallSite) bool, dstOf func(CallSite) ssa.Value) (fan *c12Fan, problem string, missing bool) {
+	var ops []CallSite
+	for _, f := range sc.fns {
+		for _, c := range CallsIn(f, false) {
+			if isOp(c) {
+				ops = append(ops, c)
+			}
+		}
+	}
 	if len(ops) == 0 {
 		return nil, "no per-replica operation call found", true
 	}
 	if len(ops) > 1 {
 		return nil, fmt.Sprintf("%d per-replica operation calls found; the analysis expects one", len(ops)), false
 	}
-	fan = &c12Fan{top: top, op: ops[0], worker: ops[0].Fn, errField: -1, sbField: -2}
-	switch {
-	case fan.worker == top:
-		fan.spawn = fan.op
-	case fan.worker.Parent() == top:
-		sites := c12CallsOf(top, fan.worker)
-		if len(sites) != 1 {
-			return fan, fmt.Sprintf("worker literal is started from %d sites; the analysis expects one", len(sites)), false
-		}
-		fan.spawn = sites[0]
-	default:
-		return fan, "per-replica operation is nested more than one literal deep", false
+	fan = &c12Fan{sc: sc, top: sc.top, op: ops[0], errField: -1, sbField: -2}
+	fan.spawn, fan.loopFn, fan.worker = fan.op, fan.op.Fn, fan.op.Fn
+	chain, ok := sc.chain(fan.op.Fn)
+	if !ok {
+		return fan, "the function performing the per-replica operation is entered from several places, or from outside the entry point's effective body", false
 	}
-	fan.elem = c12ElemOrigin(dstOf(fan.op))
+	fan.chain = chain
+	fan.elem = sc.elemOrigin(dstOf(fan.op))
+	if fan.elem != nil {
+		// the loop sits where the element's index comes from (the element itself
+		// may be picked further down, from an index handed to a helper)
+		fan.loopFn = fan.elem.Parent()
+		if in, ok := sc.res(fan.elem.X.(*ssa.IndexAddr).Index).(ssa.Instruction); ok && sc.in[in.Parent()] {
+			fan.loopFn = in.Parent()
+		}
+		found := fan.loopFn == fan.op.Fn
+		for i, e := range chain {
+			if e.site.Fn == fan.loopFn {
+				fan.spawn, found = e.site, true
+				for _, e2 := range chain[i+1:] {
+					fan.below = append(fan.below, e2.site)
+				}
+				fan.below = append(fan.below, fan.op)
+				break
+			}
+		}
+		if !found {
+			fan.elem, fan.loopFn = nil, fan.op.Fn
+		}
+	} else if len(chain) > 0 {
+		fan.spawn, fan.loopFn = chain[0].site, sc.top
+	}
 	fan.loop = c12InnermostLoop(fan.spawn.Block())
 	return fan, "", false
 }
 
-// checkFanOut: the worker is started exactly once per element of obj.field,
+// c12MustPass returns the exits of fn reachable from its entry without passing
+// an instruction satisfying stop.
+func c12MustPass(fn *ssa.Function, stop func(ssa.Instruction) bool, assume func(ssa.Value) (bool, bool)) []Leak {
+	first := fn.Blocks[0].Instrs[0]
+	if stop(first) {
+		return nil
+	}
+	return LeakingExits(PathQuery{Start: first, Stop: stop, Assume: assume, IgnorePanics: true})
+}
+
+// checkFanOut: the operation is started exactly once per element of obj.field,
 // acting on that element.
-func (cx *c12Ctx) checkFanOut(fan *c12Fan, field int, allowSkip func(*ssa.BasicBlock) bool) (ok bool, undecided bool, detail string) {
+func (cx *c12Ctx) checkFanOut(fan *c12Fan, field int, skipOK bool) (ok bool, undecided bool, detail string) {
+	sc := fan.sc
 	fname := cx.fieldName(field)
 	if fan.elem == nil {
-		return false, false, "the replica the operation acts on is not an element `" + fname + "[i]` of the replica slice (followed through captures, parameters and type assertions)"
+		return false, false, "the replica the operation acts on is not an element `" + fname + "[i]` of the replica slice (followed through captures, parameters, helpers and type assertions)"
 	}
 	ia := fan.elem.X.(*ssa.IndexAddr)
-	if !cx.isFieldLoad(ia.X, field) {
+	if !sc.isFieldLoad(ia.X, field) {
 		return false, false, "the operation acts on an element of a slice other than sto." + fname
 	}
 	l := fan.loop
@@ -738,14 +2041,44 @@ func (cx *c12Ctx) checkFanOut(fan *c12Fan, field int, allowSkip func(*ssa.BasicB
 	if !l.FromZeroStep1 {
 		return false, false, "the loop around the operation does not start at index 0 / step by 1: some replica is skipped"
 	}
-	if !cx.lenOfField(l.Bound, field) {
+	if !sc.lenOfField(l.Bound, field) {
 		return false, false, "the loop around the operation is not bounded by len(sto." + fname + ")"
 	}
-	if ia.Index != l.Idx {
+	if ia.Index != l.Idx && sc.res(ia.Index) != l.Idx {
 		return false, false, "the operation does not act on the element at the loop's current index"
+	}
+	// a failed type assertion on the element may skip it (it lacks the interface)
+	isAssertOK := func(cond ssa.Value) bool {
+		ex, ok := cond.(*ssa.Extract)
+		if !ok || ex.Index != 1 {
+			return false
+		}
+		ta, ok := ex.Tuple.(*ssa.TypeAssert)
+		return ok && sc.elemOrigin(ta.X) == fan.elem
+	}
+	var allowSkip func(b *ssa.BasicBlock) bool
+	var assume func(ssa.Value) (bool, bool)
+	if skipOK {
+		allowSkip = func(b *ssa.BasicBlock) bool {
+			ifi, ok := b.Instrs[len(b.Instrs)-1].(*ssa.If)
+			return ok && isAssertOK(ifi.Cond)
+		}
+		assume = func(cond ssa.Value) (bool, bool) {
+			if isAssertOK(cond) {
+				return true, true
+			}
+			return false, false
+		}
 	}
 	if c12SkipPath(l, fan.spawn.Block(), allowSkip) {
 		return false, false, "some iteration reaches the next one without starting the operation for its replica"
+	}
+	// below the loop: every path through each helper on the way reaches the next call
+	for _, next := range fan.below {
+		stop := func(in ssa.Instruction) bool { return in == ssa.Instruction(next.Instr) }
+		if leaks := c12MustPass(next.Fn, stop, assume); len(leaks) > 0 {
+			return false, false, fmt.Sprintf("%s can return (line %d) without performing the operation for the replica it was started for", FuncKey(next.Fn), cx.p.SSA.Fset.Position(leaks[0].Exit.Pos()).Line)
+		}
 	}
 	return true, false, fmt.Sprintf("started once per iteration of a loop idx=0..len(sto.%s)-1 on sto.%s[idx]", fname, fname)
 }
@@ -753,6 +2086,7 @@ func (cx *c12Ctx) checkFanOut(fan *c12Fan, field int, allowSkip func(*ssa.BasicB
 // resolveChannel finds the result channel the worker reports on, the layout of
 // the message and the collector's receive.
 func (fan *c12Fan) resolveChannel() (problem string, undecided bool) {
+	sc := fan.sc
 	opCall := fan.op.Value()
 	if opCall == nil {
 		return "per-replica operation is started with go/defer; its result is lost", false
@@ -761,48 +2095,75 @@ func (fan *c12Fan) resolveChannel() (problem string, undecided bool) {
 	if !hasErr {
 		return "per-replica operation has no error result", false
 	}
-	for _, b := range fan.worker.Blocks {
-		for _, in := range b.Instrs {
-			if s, ok := in.(*ssa.Send); ok {
-				if mc, ok := originValue(s.Chan).(*ssa.MakeChan); ok && mc.Parent() == fan.top {
-					if fan.ch != nil && fan.ch != mc {
-						return "worker sends on more than one channel", true
+	chanOf := func(v ssa.Value) *ssa.MakeChan {
+		mc, _ := sc.res(v).(*ssa.MakeChan)
+		if mc != nil && sc.in[mc.Parent()] {
+			return mc
+		}
+		return nil
+	}
+	// the way from the loop down to the operation, lowest function first
+	way := []*ssa.Function{fan.op.Fn}
+	for i := len(fan.below) - 1; i >= 0; i-- {
+		if f := fan.below[i].Fn; f != way[len(way)-1] {
+			way = append(way, f)
+		}
+	}
+	topOfWay := way[len(way)-1]
+	// the sends performed on the way (in those functions or in helpers only they call)
+	sendFns := map[*ssa.Function]bool{}
+	for _, f := range sc.fns {
+		if !sc.under(f, topOfWay) {
+			continue
+		}
+		for _, b := range f.Blocks {
+			for _, in := range b.Instrs {
+				if s, ok := in.(*ssa.Send); ok {
+					if mc := chanOf(s.Chan); mc != nil {
+						if fan.ch != nil && fan.ch != mc {
+							return "worker sends on more than one channel", true
+						}
+						fan.ch = mc
+						fan.sends = append(fan.sends, s)
+						sendFns[f] = true
 					}
-					fan.ch = mc
-					fan.sends = append(fan.sends, s)
 				}
 			}
 		}
 	}
+	fan.worker = fan.op.Fn
 	if fan.ch == nil {
-		return "worker does not send its result on a channel made in " + fan.top.Name(), false
+		return "the per-replica operation's result is not sent on a channel made in the effective body of " + fan.top.Name(), false
 	}
-	// sends on the channel from anywhere else
-	var all []*ssa.Function
-	var collect func(f *ssa.Function)
-	collect = func(f *ssa.Function) {
-		all = append(all, f)
-		for _, a := range f.AnonFuncs {
-			collect(a)
+	// the reporting worker: the lowest function on the way all sends happen under
+	for _, w := range way {
+		all := true
+		for f := range sendFns {
+			if !sc.under(f, w) {
+				all = false
+			}
+		}
+		fan.worker = w
+		if all {
+			break
 		}
 	}
-	collect(fan.top)
 	var recvs []*ssa.UnOp
-	for _, f := range all {
+	for _, f := range sc.fns {
 		for _, b := range f.Blocks {
 			for _, in := range b.Instrs {
 				switch x := in.(type) {
 				case *ssa.Send:
-					if f != fan.worker && originValue(x.Chan) == ssa.Value(fan.ch) {
+					if !sc.under(f, fan.worker) && chanOf(x.Chan) == fan.ch {
 						return "the result channel has a sender outside the per-replica worker", false
 					}
 				case *ssa.UnOp:
-					if x.Op == token.ARROW && originValue(x.X) == ssa.Value(fan.ch) {
+					if x.Op == token.ARROW && chanOf(x.X) == fan.ch {
 						recvs = append(recvs, x)
 					}
 				case *ssa.Select:
 					for _, st := range x.States {
-						if originValue(st.Chan) == ssa.Value(fan.ch) {
+						if chanOf(st.Chan) == fan.ch {
 							return "the result channel is used in a select; not followed", true
 						}
 					}
@@ -810,17 +2171,21 @@ func (fan *c12Fan) resolveChannel() (problem string, undecided bool) {
 			}
 		}
 	}
-	if len(recvs) != 1 || recvs[0].Parent() != fan.top || recvs[0].CommaOk {
-		return fmt.Sprintf("expected exactly one plain receive from the result channel in %s, found %d", fan.top.Name(), len(recvs)), true
+	if len(recvs) != 1 || recvs[0].CommaOk {
+		return fmt.Sprintf("expected exactly one plain receive from the result channel in the effective body of %s, found %d", fan.top.Name(), len(recvs)), true
 	}
-	fan.msg = &c12Msg{recv: recvs[0]}
+	if _, ok := sc.chain(recvs[0].Parent()); !ok {
+		return "the function receiving from the result channel is entered from several places", true
+	}
+	fan.msg = &c12Msg{sc: sc, recv: recvs[0]}
 	fan.recvLoop = c12InnermostLoop(recvs[0].Block())
 	// message layout, from the first send; all sends must agree
+	rv := ResultValue(opCall, 0)
 	for i, s := range fan.sends {
 		ef, sf := -2, -2
-		if sameOrigin(s.X, opErr) {
+		if sc.sameVal(s.X, opErr) || sameOrigin(s.X, opErr) {
 			ef = -1
-		} else if ld, ok := s.X.(*ssa.UnOp); ok && ld.Op == token.MUL {
+		} else if ld, ok := sc.res(s.X).(*ssa.UnOp); ok && ld.Op == token.MUL {
 			if al, ok := ld.X.(*ssa.Alloc); ok && al.Referrers() != nil {
 				for _, r := range *al.Referrers() {
 					fa, ok := r.(*ssa.FieldAddr)
@@ -829,9 +2194,9 @@ func (fan *c12Fan) resolveChannel() (problem string, undecided bool) {
 					}
 					for _, rr := range *fa.Referrers() {
 						if st, ok := rr.(*ssa.Store); ok && st.Addr == ssa.Value(fa) {
-							if sameOrigin(st.Val, opErr) {
+							if sc.sameVal(st.Val, opErr) || sameOrigin(st.Val, opErr) {
 								ef = fa.Field
-							} else if rv := ResultValue(opCall, 0); rv != nil && rv != opErr && sameOrigin(st.Val, rv) {
+							} else if rv != nil && rv != opErr && (sc.sameVal(st.Val, rv) || sameOrigin(st.Val, rv)) {
 								sf = fa.Field
 							}
 						}
@@ -850,23 +2215,92 @@ func (fan *c12Fan) resolveChannel() (problem string, undecided bool) {
 	return "", false
 }
 
-// checkReportsOnce: every path through the worker sends exactly one message.
-func (fan *c12Fan) checkReportsOnce() (bool, string) {
-	isSend := func(in ssa.Instruction) bool {
-		s, ok := in.(*ssa.Send)
-		return ok && originValue(s.Chan) == ssa.Value(fan.ch)
+// sendCount: the least and the greatest number of messages (capped at 2) f
+// sends on the result channel on a path from its entry to a return, counting
+// the sends of the helpers it calls; ok=false when that cannot be told.
+func (fan *c12Fan) sendCount(f *ssa.Function, depth int) (lo, hi int, ok bool) {
+	sc := fan.sc
+	if depth > c12MaxDepth || len(f.Blocks) == 0 {
+		return 0, 0, false
 	}
-	first := fan.worker.Blocks[0].Instrs[0]
-	if !isSend(first) {
-		if leaks := LeakingExits(PathQuery{Start: first, Stop: isSend, IgnorePanics: true}); len(leaks) > 0 {
-			return false, fmt.Sprintf("the worker can return without reporting (exit at line %d): the collector waits for an answer that never comes", fan.top.Prog.Fset.Position(leaks[0].Exit.Pos()).Line)
+	ok = true
+	weight := func(in ssa.Instruction) int {
+		switch x := in.(type) {
+		case *ssa.Send:
+			if sc.res(x.Chan) == ssa.Value(fan.ch) {
+				return 1
+			}
+		case ssa.CallInstruction:
+			if g := sc.calleeIn(x); g != nil {
+				l, h, k := fan.sendCount(g, depth+1)
+				if !k || l != h {
+					ok = false
+					return 0
+				}
+				return l
+			}
+		}
+		return 0
+	}
+	lo, hi = 3, -1
+	type state struct {
+		b *ssa.BasicBlock
+		n int
+	}
+	seen := map[state]bool{}
+	var walk func(b *ssa.BasicBlock, n int)
+	walk = func(b *ssa.BasicBlock, n int) {
+		if seen[state{b, n}] {
+			return
+		}
+		seen[state{b, n}] = true
+		for _, in := range b.Instrs {
+			n += weight(in)
+			if n > 2 {
+				n = 2
+			}
+			switch in.(type) {
+			case *ssa.Return:
+				if n < lo {
+					lo = n
+				}
+				if n > hi {
+					hi = n
+				}
+				return
+			case *ssa.Panic:
+				return
+			}
+		}
+		for _, s := range b.Succs {
+			walk(s, n)
 		}
 	}
-	for _, s := range fan.sends {
-		for in := range ReachableFrom(s, nil) {
-			if isSend(in) {
-				return false, "a worker path reports twice: one replica would be counted as two"
-			}
+	walk(f.Blocks[0], 0)
+	if hi < 0 {
+		return 0, 0, false // never returns
+	}
+	return lo, hi, ok
+}
+
+// checkReportsOnce: every path through the worker sends exactly one message.
+func (fan *c12Fan) checkReportsOnce() (good bool, detail string) {
+	lo, hi, ok := fan.sendCount(fan.worker, 0)
+	switch {
+	case !ok:
+		return false, "cannot count the messages the worker sends (a helper it calls sends on some paths only)"
+	case lo == 0:
+		return false, "the worker can return without reporting: the collector waits for an answer that never comes"
+	case hi > 1:
+		return false, "a worker path reports twice: one replica would be counted as two"
+	}
+	// the worker itself runs once per started operation
+	for _, c := range fan.below {
+		if c.Fn == fan.worker {
+			break
+		}
+		if c12InnermostLoop(c.Block()) != nil {
+			return false, "the reporting worker is started in a loop of its own: one replica would answer several times"
 		}
 	}
 	return true, "every worker path sends exactly one message carrying the operation's own error"
@@ -882,13 +2316,50 @@ func (cx *c12Ctx) checkCollectCount(fan *c12Fan, field int) (ok, undecided bool,
 	if l.Idx == nil {
 		return false, true, "collector loop does not have the shape `idx < bound`; cannot count its iterations"
 	}
-	if !l.FromZeroStep1 || !cx.lenOfField(l.Bound, field) {
+	if !l.FromZeroStep1 || !fan.sc.lenOfField(l.Bound, field) {
 		return false, false, "the collector loop does not run exactly len(sto." + fname + ") times, the number of workers started"
 	}
 	if c12SkipPath(l, fan.msg.recv.Block(), nil) {
 		return false, false, "some collector iteration does not receive an answer"
 	}
 	return true, false, "one receive per iteration of a loop running len(sto." + fname + ") times, as many as workers started"
+}
+
+// fieldLoad: v stands for a load of a field of the storage object.
+func (sc *c12Scope) fieldLoad(v ssa.Value) (int, bool) {
+	switch x := sc.res(v).(type) {
+	case *ssa.UnOp:
+		if x.Op == token.MUL {
+			return sc.cx.fieldAddr(x.X)
+		}
+	case *ssa.Field:
+		if sc.cx.isObj(x.X.Type()) {
+			return x.Field, true
+		}
+	}
+	return 0, false
+}
+
+func (sc *c12Scope) isFieldLoad(v ssa.Value, f int) bool {
+	g, ok := sc.fieldLoad(v)
+	return ok && g == f
+}
+
+// lenArg returns x when v stands for the builtin call len(x).
+func (sc *c12Scope) lenArg(v ssa.Value) (ssa.Value, bool) {
+	call, ok := sc.res(v).(*ssa.Call)
+	if !ok {
+		return nil, false
+	}
+	if b, ok := call.Call.Value.(*ssa.Builtin); ok && b.Name() == "len" && len(call.Call.Args) == 1 {
+		return call.Call.Args[0], true
+	}
+	return nil, false
+}
+
+func (sc *c12Scope) lenOfField(v ssa.Value, f int) bool {
+	arg, ok := sc.lenArg(v)
+	return ok && sc.isFieldLoad(arg, f)
 }
 
 // ---------------------------------------------------------------------------
@@ -932,9 +2403,22 @@ func c12NetLeaves(root *ssa.Phi) []c12NetLeaf {
 	return out
 }
 
+// c12LoopHeaderPhi: phi sits at the header of a loop and takes a value from inside it.
+func c12LoopHeaderPhi(phi *ssa.Phi) bool {
+	h := phi.Block()
+	for _, pr := range h.Preds {
+		if h.Dominates(pr) && c12InLoop(h, pr) {
+			return true
+		}
+	}
+	return false
+}
+
 // c12CounterOf interprets v (the value compared with the threshold) as a
 // loop-carried counter: a header phi whose network leaves are only `0` from
-// outside the loop, the phi itself, and phi+1 — or its freshly incremented value.
+// outside the loop, the phi itself, and phi+1 — or its freshly incremented
+// value, or the value the counter has after the loop (a phi merging the
+// loop's exits, go/ssa's form for rotated loops).
 func c12CounterOf(v ssa.Value) (*c12Counter, bool /*v is a fresh increment*/, string) {
 	var phi *ssa.Phi
 	fresh := false
@@ -951,9 +2435,40 @@ func c12CounterOf(v ssa.Value) (*c12Counter, bool /*v is a fresh increment*/, st
 		}
 		return nil
 	}
+	var start *ssa.Phi
 	switch x := v.(type) {
 	case *ssa.Phi:
-		phi = x
+		// the loop-header phi reachable from x through merging phis
+		seen := map[*ssa.Phi]bool{}
+		var find func(p *ssa.Phi)
+		find = func(p *ssa.Phi) {
+			if seen[p] || phi != nil {
+				return
+			}
+			seen[p] = true
+			if c12LoopHeaderPhi(p) {
+				phi = p
+				return
+			}
+			for _, e := range p.Edges {
+				switch q := e.(type) {
+				case *ssa.Phi:
+					find(q)
+				case *ssa.BinOp: // counter+1 on every arm
+					if q.Op == token.ADD {
+						if b, ok := q.X.(*ssa.Phi); ok {
+							find(b)
+						} else if b, ok := q.Y.(*ssa.Phi); ok {
+							find(b)
+						}
+					}
+				}
+			}
+		}
+		find(x)
+		if phi != x {
+			start = x
+		}
 	case *ssa.BinOp:
 		if p, ok := x.X.(*ssa.Phi); ok && isInc(x, p) != nil {
 			phi, fresh = p, true
@@ -967,7 +2482,27 @@ func c12CounterOf(v ssa.Value) (*c12Counter, bool /*v is a fresh increment*/, st
 	c := &c12Counter{phi: phi}
 	h := phi.Block()
 	seenInc := map[*ssa.BinOp]bool{}
-	for _, lf := range c12NetLeaves(phi) {
+	leaves := c12NetLeaves(phi)
+	if start != nil {
+		// the merged value after the loop: its other inputs must be the same counter or its start value
+		seen := map[*ssa.Phi]bool{phi: true}
+		var expand func(p *ssa.Phi)
+		expand = func(p *ssa.Phi) {
+			if seen[p] {
+				return
+			}
+			seen[p] = true
+			for i, e := range p.Edges {
+				if q, ok := e.(*ssa.Phi); ok {
+					expand(q)
+					continue
+				}
+				leaves = append(leaves, c12NetLeaf{e, p.Block().Preds[i]})
+			}
+		}
+		expand(start)
+	}
+	for _, lf := range leaves {
 		switch {
 		case lf.Val == ssa.Value(phi):
 		case isInc(lf.Val, phi) != nil:
@@ -999,14 +2534,80 @@ func (c *c12Counter) counted(at *ssa.BasicBlock) bool {
 	return false
 }
 
-// ackReturns: returns of fn whose error operand is the constant nil.
-func c12SplitReturns(fn *ssa.Function) (acks, others []ReturnInfo) {
-	idx := ErrResultIndex(fn)
+// c12Leaf is one way the entry point can return: a return instruction of the
+// entry point itself, or of a helper whose results the entry point hands back.
+type c12Leaf struct {
+	fn      *ssa.Function
+	ret     *ssa.Return
+	results []ssa.Value // the entry point's result tuple on this way out
+	facts   []CondFact  // what is known there
+}
+
+// leaves lists the ways fn returns, looking through returns that hand back the
+// results of a helper call: those are replaced by the helper's own returns
+// (minus the ones contradicted by what the caller knows about the call's other
+// results).
+func (sc *c12Scope) leaves(fn *ssa.Function) []c12Leaf { return sc.leavesN(fn, 0) }
+
+func (sc *c12Scope) leavesN(fn *ssa.Function, depth int) []c12Leaf {
+	errIdx := ErrResultIndex(fn)
+	var out []c12Leaf
+	callOf := c12CallOf
 	for _, ri := range Returns(fn) {
-		if IsNilConst(ri.Results[idx]) {
-			acks = append(acks, ri)
-		} else {
-			others = append(others, ri)
+		facts := sc.factsAt(ri.Ret.Block())
+		var call *ssa.Call
+		var g *ssa.Function
+		ci := 0
+		if errIdx >= 0 && depth < c12MaxDepth {
+			call, ci = callOf(ri.Results[errIdx])
+			if call != nil {
+				g = sc.calleeIn(call)
+			}
+		}
+		if g == nil || (Precedes(call, ri.Ret) == false) {
+			out = append(out, c12Leaf{fn, ri.Ret, ri.Results, facts})
+			continue
+		}
+		// what the caller knows about the call's results rules some of them out
+		contradicted := func(sub c12Leaf) bool {
+			var at *ssa.BasicBlock
+			if sub.fn == g {
+				at = sub.ret.Block()
+			}
+			return c12Contradicted(call, sub.results, at, facts)
+		}
+		for _, sub := range sc.leavesN(g, depth+1) {
+			if len(sub.results) <= ci || contradicted(sub) {
+				continue
+			}
+			res := make([]ssa.Value, len(ri.Results))
+			for k, v := range ri.Results {
+				res[k] = v
+				if c, j := callOf(v); c == call && j < len(sub.results) {
+					res[k] = sub.results[j]
+				}
+			}
+			out = append(out, c12Leaf{sub.fn, sub.ret, res, append(append([]CondFact(nil), sub.facts...), facts...)})
+		}
+	}
+	return out
+}
+
+// errLeaves splits the ways out of fn into those that report success with a
+// constant nil error (acks), and the others whose error is not known non-nil.
+func (sc *c12Scope) errLeaves(fn *ssa.Function) (acks, others []c12Leaf) {
+	idx := ErrResultIndex(fn)
+	for _, lf := range sc.leaves(fn) {
+		v := lf.results[idx]
+		switch {
+		case IsNilConst(v):
+			acks = append(acks, lf)
+		case sc.neverNil(v, 0):
+		default:
+			if k, isNil := c12NilFact(lf.facts, func(o ssa.Value) bool { return sc.sameVal(o, v) }); k && !isNil {
+				continue // plain error return (e.g. the slurp failed)
+			}
+			others = append(others, lf)
 		}
 	}
 	return
@@ -1015,18 +2616,22 @@ func c12SplitReturns(fn *ssa.Function) (acks, others []ReturnInfo) {
 // checkFallthrough decides whether the error returned at a non-acknowledging
 // return is, on every arm of the collector loop, known non-nil or carried over
 // unchanged by an arm that counted a success.
-func (cx *c12Ctx) checkFallthrough(fan *c12Fan, ctr *c12Counter, ri ReturnInfo, errIdx int) (status Status, detail string) {
+func (cx *c12Ctx) checkFallthrough(fan *c12Fan, ctr *c12Counter, lf c12Leaf, errIdx int) (status Status, detail string) {
+	sc := fan.sc
 	header := fan.recvLoop.Header
+	if lf.fn != header.Parent() {
+		return Undecided, "the error of this return is computed outside the function that collects the replicas' answers; not followed"
+	}
 	msgErr := func(v ssa.Value) bool {
 		f, ok := fan.msg.field(v)
 		return ok && f == fan.errField
 	}
 	nonNil := func(v ssa.Value, facts []CondFact) bool {
-		if isNonNilErrorExpr(v) {
+		if sc.neverNil(v, 0) {
 			return true
 		}
 		same := func(o ssa.Value) bool {
-			if sameOriginStrict(o, v) {
+			if sameOriginStrict(o, v) || sc.sameVal(o, v) {
 				return true
 			}
 			return msgErr(o) && msgErr(v)
@@ -1046,6 +2651,12 @@ func (cx *c12Ctx) checkFallthrough(fan *c12Fan, ctr *c12Counter, ri ReturnInfo, 
 		if nonNil(v, facts) {
 			return
 		}
+		if _, isPhi := v.(*ssa.Phi); !isPhi {
+			// a value handed through a helper stands for what the helper was given
+			if rv := sc.resAt(v, facts); rv != v && nonNil(rv, facts) {
+				return
+			}
+		}
 		if phi, ok := v.(*ssa.Phi); ok {
 			if phi.Block() == header && c12InLoop(header, at) && !(fan.recvLoop.Latch == at) {
 				// the error carried into this iteration leaves arm `at` unchanged
@@ -1059,7 +2670,7 @@ func (cx *c12Ctx) checkFallthrough(fan *c12Fan, ctr *c12Counter, ri ReturnInfo, 
 			seen[phi] = true
 			for i, e := range phi.Edges {
 				pred := phi.Block().Preds[i]
-				walk(e, c12EdgeFacts(pred, phi.Block()), pred)
+				walk(e, sc.edgeFacts(pred, phi.Block()), pred)
 			}
 			return
 		}
@@ -1073,11 +2684,122 @@ func (cx *c12Ctx) checkFallthrough(fan *c12Fan, ctr *c12Counter, ri ReturnInfo, 
 			bad(Undecided, "the returned error is recomputed after the collector loop from a value the analysis cannot prove non-nil")
 		}
 	}
-	walk(ri.Results[errIdx], FactsAt(ri.Ret.Block()), ri.Ret.Block())
+	walk(lf.results[errIdx], sc.factsAt(lf.ret.Block()), lf.ret.Block())
 	if status == Discharged {
 		detail = "on every collector arm the returned error is known non-nil or carried over by an arm that counted a success (initial value from before the loop; counting argument not decided)"
 	}
 	return
+}
+
+// neverNil: v is an error value that is never nil: a fresh error, or the
+// result of a helper of the scope all of whose returns hand back such a value.
+func (sc *c12Scope) neverNil(v ssa.Value, depth int) bool {
+	if isNonNilErrorExpr(v) {
+		return true
+	}
+	call, idx := c12CallOf(v)
+	if call == nil || depth > 3 {
+		return false
+	}
+	g := sc.calleeIn(call)
+	if g == nil {
+		return false
+	}
+	rets := Returns(g)
+	for _, ri := range rets {
+		if idx >= len(ri.Results) {
+			return false
+		}
+		r := ri.Results[idx]
+		if c12KnownNonNil(ri.Ret.Block(), r) {
+			continue
+		}
+		if !sc.neverNil(r, depth+1) {
+			return false
+		}
+	}
+	return len(rets) > 0
+}
+
+// c12SameRead: a and b are the same value: identical, of one origin, or two
+// reads of the same field of the same (immutable) SSA struct value.
+func c12SameRead(a, b ssa.Value) bool {
+	if sameOriginStrict(a, b) {
+		return true
+	}
+	fa, ok1 := originValue(a).(*ssa.Field)
+	fb, ok2 := originValue(b).(*ssa.Field)
+	if ok1 && ok2 {
+		return fa.Field == fb.Field && c12SameRead(fa.X, fb.X)
+	}
+	// two loads of the same field path of a local that is written once, as a whole
+	// (a struct parameter go/ssa spills to take field addresses)
+	pa, ala := c12FieldPathOfLoad(a)
+	pb, alb := c12FieldPathOfLoad(b)
+	return ala != nil && ala == alb && pa == pb && c12WrittenOnce(ala)
+}
+
+// c12FieldPathOfLoad: v is a load of &al.f.g...; returns the path and al.
+func c12FieldPathOfLoad(v ssa.Value) (string, *ssa.Alloc) {
+	ld, ok := v.(*ssa.UnOp)
+	if !ok || ld.Op != token.MUL {
+		return "", nil
+	}
+	path := ""
+	ad := ld.X
+	for {
+		fa, ok := ad.(*ssa.FieldAddr)
+		if !ok {
+			break
+		}
+		path = fmt.Sprintf(".%d%s", fa.Field, path)
+		ad = fa.X
+	}
+	al, _ := ad.(*ssa.Alloc)
+	if path == "" {
+		return "", nil
+	}
+	return path, al
+}
+
+// c12WrittenOnce: the only write to local al is one store of a whole value, and
+// its address is used for nothing but that store and (field) loads.
+func c12WrittenOnce(al *ssa.Alloc) bool {
+	stores := 0
+	ok := true
+	var scan func(addr ssa.Value, top bool)
+	scan = func(addr ssa.Value, top bool) {
+		if addr.Referrers() == nil {
+			return
+		}
+		for _, r := range *addr.Referrers() {
+			switch r := r.(type) {
+			case *ssa.Store:
+				if r.Addr == addr && top {
+					stores++
+				} else {
+					ok = false
+				}
+			case *ssa.FieldAddr:
+				scan(r, false)
+			case *ssa.UnOp:
+				if r.Op != token.MUL {
+					ok = false
+				}
+			case *ssa.DebugRef:
+			default:
+				ok = false
+			}
+		}
+	}
+	scan(al, true)
+	return ok && stores == 1
+}
+
+// c12KnownNonNil: the branch facts at block at say that v is not nil.
+func c12KnownNonNil(at *ssa.BasicBlock, v ssa.Value) bool {
+	k, isNil := c12NilFact(FactsAt(at), func(o ssa.Value) bool { return c12SameRead(o, v) || sameOrigin(o, v) })
+	return k && !isNil
 }
 
 // sameOriginStrict is sameOrigin without the phi-edge relaxation.
@@ -1093,20 +2815,21 @@ func (cx *c12Ctx) c12Collector(rule string, fan *c12Fan, guardName string,
 	isThreshold func(ssa.Value) bool, relOK func(rel token.Token, thr ssa.Value, fresh bool) (bool, string),
 	extraIncFact func(facts []CondFact) (bool, string)) {
 	p, r := cx.p, cx.r
+	sc := fan.sc
 	fn := fan.top
 	key := FuncKey(fn)
 	errIdx := ErrResultIndex(fn)
-	acks, others := c12SplitReturns(fn)
+	acks, others := sc.errLeaves(fn)
 	if len(acks) == 0 {
 		r.Violation(rule, key+"#"+guardName, p.Pos(fn.Pos()), "no return with a constant nil error found: success is reported through a value the rule cannot tie to the quorum comparison")
 		return
 	}
 	var ctr *c12Counter
-	for _, ri := range acks {
-		site := c12Site(p, ri.Ret)
+	for _, lf := range acks {
+		site := c12Site(p, lf.ret)
 		var found bool
 		var why string
-		for _, f := range FactsAt(ri.Ret.Block()) {
+		for _, f := range lf.facts {
 			thr, cv, rel, ok := c12Relation(f, isThreshold)
 			if !ok {
 				continue
@@ -1115,6 +2838,11 @@ func (cx *c12Ctx) c12Collector(rule string, fan *c12Fan, guardName string,
 			flip := map[token.Token]token.Token{token.LSS: token.GTR, token.GTR: token.LSS, token.LEQ: token.GEQ, token.GEQ: token.LEQ, token.EQL: token.EQL, token.NEQ: token.NEQ}
 			rel = flip[rel]
 			c, fresh, prob := c12CounterOf(cv)
+			if c == nil {
+				if rv := sc.res(cv); rv != cv {
+					c, fresh, prob = c12CounterOf(rv)
+				}
+			}
 			if c == nil {
 				why = prob
 				continue
@@ -1144,7 +2872,7 @@ func (cx *c12Ctx) c12Collector(rule string, fan *c12Fan, guardName string,
 	}
 	// increments only under success facts
 	for _, inc := range ctr.incs {
-		facts := FactsAt(inc.Block())
+		facts := sc.factsAt(inc.Block())
 		k, isNil := c12NilFact(facts, func(v ssa.Value) bool {
 			f, ok := fan.msg.field(v)
 			return ok && f == fan.errField
@@ -1162,22 +2890,15 @@ func (cx *c12Ctx) c12Collector(rule string, fan *c12Fan, guardName string,
 			r.OK(rule, key+"#count-only-successes", c12Site(p, inc), "counter+1 only in a block dominated by the success facts of the answer received in the same iteration")
 		}
 	}
-	for _, ri := range others {
-		v := ri.Results[errIdx]
-		if isNonNilErrorExpr(v) {
-			continue
-		}
-		if k, isNil := NilFact(ri.Ret.Block(), v); k && !isNil {
-			continue // plain error return (e.g. the slurp failed)
-		}
-		st, detail := cx.checkFallthrough(fan, ctr, ri, errIdx)
+	for _, lf := range others {
+		st, detail := cx.checkFallthrough(fan, ctr, lf, errIdx)
 		switch st {
 		case Discharged:
-			r.OK(rule, key+"#fallthrough-error", c12Site(p, ri.Ret), detail)
+			r.OK(rule, key+"#fallthrough-error", c12Site(p, lf.ret), detail)
 		case Violated:
-			r.Violation(rule, key+"#fallthrough-error", c12Site(p, ri.Ret), detail)
+			r.Violation(rule, key+"#fallthrough-error", c12Site(p, lf.ret), detail)
 		default:
-			r.Undecided(rule, key+"#fallthrough-error", c12Site(p, ri.Ret), detail)
+			r.Undecided(rule, key+"#fallthrough-error", c12Site(p, lf.ret), detail)
 		}
 	}
 }
@@ -1201,6 +2922,7 @@ func c12QAck(cx *c12Ctx) {
 	p, r := cx.p, cx.r
 	r.Floor(rule, 8)
 	fn := cx.method("ReceiveBlob")
+	sc := cx.scope(fn)
 	key := FuncKey(fn)
 	recvIface := p.Iface("pkg/blobserver", "BlobReceiver")
 	isHelper := func(c CallSite) bool {
@@ -1213,12 +2935,12 @@ func c12QAck(cx *c12Ctx) {
 		}
 		return c.Args()[0]
 	}
-	fan, prob, missing := c12FindFan(fn, isOp, dstOf)
+	fan, prob, missing := c12FindFan(sc, isOp, dstOf)
 	if fan == nil || prob != "" {
 		cx.report(rule, key+"#fan-out", p.Pos(fn.Pos()), false, !missing, "replica upload: "+prob)
 		return
 	}
-	ok, und, detail := cx.checkFanOut(fan, cx.fWRep, nil)
+	ok, und, detail := cx.checkFanOut(fan, cx.fWRep, false)
 	cx.report(rule, key+"#fan-out", p.Pos(fan.spawn.Pos()), ok, und, "uploader "+detail)
 
 	c12RightBytes(cx, rule, fan)
@@ -1237,12 +2959,12 @@ func c12QAck(cx *c12Ctx) {
 	ok, und, detail = cx.checkCollectCount(fan, cx.fWRep)
 	cx.report(rule, key+"#collect-count", c12Site(p, fan.msg.recv), ok, und, detail)
 
-	slurped := c12Slurp(fn, fan)
+	slurped := c12Slurp(fan)
 	isReported := func(v ssa.Value) bool {
 		if b, ok := v.Type().Underlying().(*types.Basic); !ok || b.Info()&types.IsInteger == 0 {
 			return false
 		}
-		return DependsOn(v, func(u ssa.Value) bool {
+		return sc.dependsOn(v, func(u ssa.Value) bool {
 			f, ok := fan.msg.field(u)
 			return ok && f == fan.sbField
 		})
@@ -1274,13 +2996,16 @@ func c12QAck(cx *c12Ctx) {
 		}
 		return false, "the dominating comparison `counter " + rel.String() + " minWritesForSuccess` is not `>=` (or `==` on counter+1)"
 	}
-	cx.c12Collector(rule, fan, "ack-guard", func(v ssa.Value) bool { return cx.isFieldLoad(v, cx.fMin) }, relOK, sizeFact)
+	cx.c12Collector(rule, fan, "ack-guard", func(v ssa.Value) bool { return sc.isFieldLoad(v, cx.fMin) }, relOK, sizeFact)
 
 	// the acknowledged SizedRef
-	acks, _ := c12SplitReturns(fn)
-	for _, ri := range acks {
-		v := ri.Results[0]
+	acks, _ := sc.errLeaves(fn)
+	for _, lf := range acks {
+		v := lf.results[0]
 		f, isMsg := fan.msg.field(v)
+		if !isMsg {
+			f, isMsg = fan.msg.field(sc.res(v))
+		}
 		good := isMsg && f == fan.sbField
 		if !good && slurped != nil {
 			for _, part := range c12StructParts(v) {
@@ -1289,7 +3014,7 @@ func c12QAck(cx *c12Ctx) {
 				}
 			}
 		}
-		r.Check(good, rule, key+"#ack-value", c12Site(p, ri.Ret),
+		r.Check(good, rule, key+"#ack-value", c12Site(p, lf.ret),
 			"the acknowledged SizedRef is the one reported by the replica answer just counted (or is built from the slurped size)",
 			"the acknowledged SizedRef is neither the counted replica's answer nor built from the slurped size")
 	}
@@ -1320,9 +3045,11 @@ func c12StructParts(v ssa.Value) []ssa.Value {
 	return out
 }
 
-// c12Slurp finds the call that reads the request body into memory before the
+// c12Slurp finds the call(s) that read the request body into memory before the
 // fan-out and returns a predicate "v is (derived from) what was slurped".
-func c12Slurp(fn *ssa.Function, fan *c12Fan) func(ssa.Value) bool {
+func c12Slurp(fan *c12Fan) func(ssa.Value) bool {
+	sc := fan.sc
+	fn := fan.top
 	var src *ssa.Parameter
 	for _, prm := range fn.Params {
 		if IsNamed(prm.Type(), "io", "Reader") {
@@ -1332,52 +3059,60 @@ func c12Slurp(fn *ssa.Function, fan *c12Fan) func(ssa.Value) bool {
 	if src == nil {
 		return nil
 	}
-	for _, c := range CallsIn(fn, false) {
-		call := c.Value()
-		if call == nil {
-			continue
-		}
-		uses := false
-		var bufs []*ssa.Alloc
-		for _, a := range c.Args() {
-			switch o := originValue(a).(type) {
-			case *ssa.Parameter:
-				if o == src {
-					uses = true
-				}
-			case *ssa.Alloc:
-				bufs = append(bufs, o)
+	var calls []*ssa.Call
+	var bufs []*ssa.Alloc
+	for _, f := range sc.fns {
+		for _, c := range CallsIn(f, false) {
+			call := c.Value()
+			if call == nil || sc.calleeIn(call) != nil {
+				continue // helpers of the package are looked into, not trusted
 			}
-		}
-		if !uses {
-			continue
-		}
-		if ok, _ := SuccessDominates(call, fan.spawn.Instr); !ok {
-			continue
-		}
-		return func(v ssa.Value) bool {
-			return DependsOn(v, func(u ssa.Value) bool {
-				if u == ssa.Value(call) {
-					return true
-				}
-				cell := u
-				if c, ok := varOf(u); ok {
-					cell = c
-				}
-				for _, b := range bufs {
-					if cell == ssa.Value(b) {
-						return true
+			uses := false
+			var bs []*ssa.Alloc
+			for _, a := range c.Args() {
+				switch o := sc.res(a).(type) {
+				case *ssa.Parameter:
+					if o == src {
+						uses = true
 					}
+				case *ssa.Alloc:
+					bs = append(bs, o)
 				}
-				return false
-			})
+			}
+			if !uses || !sc.succeededBefore(call, fan.spawn.Instr) {
+				continue
+			}
+			calls = append(calls, call)
+			bufs = append(bufs, bs...)
 		}
 	}
-	return nil
+	if len(calls) == 0 {
+		return nil
+	}
+	return func(v ssa.Value) bool {
+		return sc.dependsOn(v, func(u ssa.Value) bool {
+			for _, c := range calls {
+				if u == ssa.Value(c) {
+					return true
+				}
+			}
+			cell := u
+			if c, ok := varOf(u); ok {
+				cell = c
+			}
+			for _, b := range bufs {
+				if cell == ssa.Value(b) {
+					return true
+				}
+			}
+			return false
+		})
+	}
 }
 
 func c12RightBytes(cx *c12Ctx, rule string, fan *c12Fan) {
 	p, r := cx.p, cx.r
+	sc := fan.sc
 	fn := fan.top
 	construct := FuncKey(fn) + "#right-bytes"
 	site := p.Pos(fan.op.Pos())
@@ -1386,35 +3121,25 @@ func c12RightBytes(cx *c12Ctx, rule string, fan *c12Fan) {
 		r.Undecided(rule, construct, site, "unexpected argument list of the per-replica receive call")
 		return
 	}
-	if prm, ok := originValue(args[2]).(*ssa.Parameter); !ok || prm.Parent() != fn {
+	if prm, ok := sc.res(args[2]).(*ssa.Parameter); !ok || prm.Parent() != fn {
 		r.Violation(rule, construct, site, "the blobref handed to the replica is not ReceiveBlob's own blobref parameter")
 		return
 	}
-	slurped := c12Slurp(fn, fan)
+	slurped := c12Slurp(fan)
 	if slurped == nil {
 		r.Violation(rule, construct, site, "no successful read of the src parameter into memory dominates the fan-out: the replicas would share (and race on) the request's reader")
 		return
 	}
-	rd := originValue(args[3])
+	rd := sc.res(args[3])
 	if !slurped(rd) {
 		r.Violation(rule, construct, site, "the reader handed to the replica is not derived from the bytes slurped from src")
 		return
 	}
-	// one reader per upload
+	// one reader per upload: it is created inside the per-replica loop, or in a
+	// function on the way from that loop to the upload
 	fresh := false
-	switch x := rd.(type) {
-	case *ssa.Call:
-		fresh = x.Parent() == fan.worker && (fan.worker != fn || (fan.loop != nil && c12InLoop(fan.loop.Header, x.Block())))
-	case *ssa.Parameter:
-		if x.Parent() == fan.worker && fan.worker != fn {
-			for k, prm := range fan.worker.Params {
-				if prm == x && k < len(fan.spawn.Common().Args) {
-					if c, ok := originValue(fan.spawn.Common().Args[k]).(*ssa.Call); ok && fan.loop != nil && c12InLoop(fan.loop.Header, c.Block()) {
-						fresh = true
-					}
-				}
-			}
-		}
+	if x, ok := rd.(*ssa.Call); ok && fan.onWay(x.Parent()) {
+		fresh = x.Parent() != fan.spawn.Fn || (fan.loop != nil && c12InLoop(fan.loop.Header, x.Block()))
 	}
 	r.Check(fresh, rule, construct, site,
 		"each upload gets ReceiveBlob's blobref and its own reader, created per upload over the buffer that a successful read of src filled before the fan-out",
@@ -1429,17 +3154,18 @@ func c12QRemove(cx *c12Ctx) {
 	p, r := cx.p, cx.r
 	r.Floor(rule, 6)
 	fn := cx.method("RemoveBlobs")
+	sc := cx.scope(fn)
 	key := FuncKey(fn)
 	iface := p.Iface("pkg/blobserver", "BlobRemover")
 	isOp := func(c CallSite) bool { return c.IsMethod("RemoveBlobs", iface) }
-	fan, prob, missing := c12FindFan(fn, isOp, func(c CallSite) ssa.Value { return c.Args()[0] })
+	fan, prob, missing := c12FindFan(sc, isOp, func(c CallSite) ssa.Value { return c.Args()[0] })
 	if fan == nil || prob != "" {
 		cx.report(rule, key+"#fan-out", p.Pos(fn.Pos()), false, !missing, "replica removal: "+prob)
 		return
 	}
-	ok, und, detail := cx.checkFanOut(fan, cx.fWRep, nil)
+	ok, und, detail := cx.checkFanOut(fan, cx.fWRep, false)
 	if ok {
-		if prm, isP := originValue(fan.op.Args()[2]).(*ssa.Parameter); !isP || prm.Parent() != fn {
+		if prm, isP := sc.res(fan.op.Args()[2]).(*ssa.Parameter); !isP || prm.Parent() != fn {
 			ok, detail = false, "the replicas are not asked to remove RemoveBlobs' own blobs argument"
 		}
 	}
@@ -1479,30 +3205,21 @@ func c12QRead(cx *c12Ctx) {
 // early only on success.
 func (cx *c12Ctx) readFallback(rule string, fn *ssa.Function, method string, iface *types.Interface) {
 	p, r := cx.p, cx.r
+	sc := cx.scope(fn)
 	key := FuncKey(fn)
 	isOp := func(c CallSite) bool { return c.Value() != nil && c.IsMethod(method, iface) }
-	fan, prob, missing := c12FindFan(fn, isOp, func(c CallSite) ssa.Value { return c.Args()[0] })
+	fan, prob, missing := c12FindFan(sc, isOp, func(c CallSite) ssa.Value { return c.Args()[0] })
 	if fan == nil || prob != "" {
 		cx.report(rule, key+"#tries-every-read-replica", p.Pos(fn.Pos()), false, !missing, method+": "+prob)
 		return
 	}
-	if fan.worker != fn {
-		r.Undecided(rule, key+"#tries-every-read-replica", p.Pos(fan.op.Pos()), "the replica read happens in a function literal; ordered fall-back not followed")
-		return
-	}
-	allowSkip := func(b *ssa.BasicBlock) bool {
-		ifi, ok := b.Instrs[len(b.Instrs)-1].(*ssa.If)
-		if !ok {
-			return false
+	for _, e := range fan.chain {
+		if e.kind != 'c' {
+			r.Undecided(rule, key+"#tries-every-read-replica", p.Pos(fan.op.Pos()), "the replica read is started asynchronously (go/defer/callback); ordered fall-back not followed")
+			return
 		}
-		ex, ok := ifi.Cond.(*ssa.Extract)
-		if !ok || ex.Index != 1 {
-			return false
-		}
-		ta, ok := ex.Tuple.(*ssa.TypeAssert)
-		return ok && fan.elem != nil && originValue(ta.X) == ssa.Value(fan.elem)
 	}
-	ok, und, detail := cx.checkFanOut(fan, cx.fRRep, allowSkip)
+	ok, und, detail := cx.checkFanOut(fan, cx.fRRep, true)
 	cx.report(rule, key+"#tries-every-read-replica", p.Pos(fan.op.Pos()), ok, und, method+" "+detail+" (skipped only when the replica lacks the interface)")
 	if !ok {
 		return
@@ -1512,11 +3229,13 @@ func (cx *c12Ctx) readFallback(rule string, fn *ssa.Function, method string, ifa
 		r.Violation(rule, key+"#early-exit-only-on-success", p.Pos(fan.op.Pos()), "the replica's error is not looked at")
 		return
 	}
-	isErr := func(o ssa.Value) bool { return sameOriginStrict(o, opErr) }
+	isErrAt := func(facts []CondFact) func(ssa.Value) bool {
+		return func(o ssa.Value) bool { return sameOriginStrict(o, opErr) || sc.sameValAt(o, opErr, facts) }
+	}
 	h := fan.loop.Header
 	bad := ""
 	exits := 0
-	for _, u := range fn.Blocks {
+	for _, u := range fan.loopFn.Blocks {
 		if u == h || !c12InLoop(h, u) {
 			continue
 		}
@@ -1525,7 +3244,8 @@ func (cx *c12Ctx) readFallback(rule string, fn *ssa.Function, method string, ifa
 				continue
 			}
 			exits++
-			if k, isNil := c12NilFact(c12EdgeFacts(u, v), isErr); !(k && isNil) {
+			ef := sc.edgeFacts(u, v)
+			if k, isNil := c12NilFact(ef, isErrAt(ef)); !(k && isNil) {
 				bad = fmt.Sprintf("the loop over the read replicas is left (block %d -> %d) where the current replica's error is not known nil: a failing or blob-less replica earlier in the list hides the copies held by later ones", u.Index, v.Index)
 			}
 		}
@@ -1534,27 +3254,41 @@ func (cx *c12Ctx) readFallback(rule string, fn *ssa.Function, method string, ifa
 		fmt.Sprintf("%d early exit edge(s) from the fall-back loop, all on the err==nil edge of the current replica's %s", exits, method), bad)
 	n := 0
 	good := true
-	for _, ri := range Returns(fn) {
-		if k, isNil := c12NilFact(FactsAt(ri.Ret.Block()), isErr); k && isNil {
-			n++
-			if rv := ResultValue(fan.op.Value(), 0); rv == nil || !sameOriginStrict(ri.Results[0], rv) {
-				good = false
+	rv := ResultValue(fan.op.Value(), 0)
+	for _, lf := range sc.leaves(fn) {
+		// the returned reader, on each way it can come in where the current
+		// replica's error is known nil
+		for _, pl := range sc.phiLeaves(lf.results[0], lf.ret.Block()) {
+			facts := append(append([]CondFact(nil), pl.facts...), lf.facts...)
+			if k, isNil := c12NilFact(facts, isErrAt(facts)); k && isNil {
+				n++
+				if rv == nil || !(sameOriginStrict(pl.val, rv) || sc.sameValAt(pl.val, rv, facts)) {
+					good = false
+				}
 			}
 		}
 	}
-	if n > 0 {
+	switch {
+	case n > 0:
 		r.Check(good, rule, key+"#returns-that-replicas-reader", p.Pos(fan.op.Pos()),
 			"the return on the success edge hands back the reader of the replica that succeeded", "a return on the success edge does not hand back the successful replica's reader")
+	default:
+		r.Undecided(rule, key+"#returns-that-replicas-reader", p.Pos(fan.op.Pos()), "no return (or merged result value) found on the edge where the current replica's error is known nil; cannot tell which reader is handed back")
 	}
 }
 
-// c12RefOfParam: v is prm.Ref for a blob.SizedRef parameter prm of fn.
-func c12RefOfParam(v ssa.Value, fn *ssa.Function) bool {
+// refOfParam: v is prm.Ref for a blob.SizedRef parameter prm of the callback
+// (the parameter the replica supplies), possibly handed on to helpers.
+func (sc *c12Scope) refOfParam(v ssa.Value, cb *ssa.Function) bool {
 	isParam := func(x ssa.Value) bool {
-		prm, ok := x.(*ssa.Parameter)
-		return ok && prm.Parent() == fn
+		prm, ok := sc.res(x).(*ssa.Parameter)
+		return ok && prm.Parent() == cb
 	}
 	switch x := v.(type) {
+	case *ssa.Parameter:
+		if a := sc.argOf(x); a != nil {
+			return sc.refOfParam(a, cb)
+		}
 	case *ssa.Field:
 		return fieldName(x.X.Type(), x.Field) == "Ref" && isParam(x.X)
 	case *ssa.UnOp:
@@ -1562,7 +3296,13 @@ func c12RefOfParam(v ssa.Value, fn *ssa.Function) bool {
 			return false
 		}
 		fa, ok := x.X.(*ssa.FieldAddr)
-		if !ok || fieldName(fa.X.Type(), fa.Field) != "Ref" {
+		if !ok {
+			if o := originValue(x); o != ssa.Value(x) {
+				return sc.refOfParam(o, cb)
+			}
+			return false
+		}
+		if fieldName(fa.X.Type(), fa.Field) != "Ref" {
 			return false
 		}
 		al, ok := fa.X.(*ssa.Alloc)
@@ -1593,76 +3333,113 @@ func c12RefOfParam(v ssa.Value, fn *ssa.Function) bool {
 func (cx *c12Ctx) statDedup(rule string) {
 	p, r := cx.p, cx.r
 	fn := cx.method("StatBlobs")
+	sc := cx.scope(fn)
 	key := FuncKey(fn)
 	iface := p.Iface("pkg/blobserver", "BlobStatter")
 	isOp := func(c CallSite) bool { return c.Value() != nil && c.IsMethod("StatBlobs", iface) }
-	fan, prob, missing := c12FindFan(fn, isOp, func(c CallSite) ssa.Value { return c.Args()[0] })
+	fan, prob, missing := c12FindFan(sc, isOp, func(c CallSite) ssa.Value { return c.Args()[0] })
 	if fan == nil || prob != "" {
 		cx.report(rule, key+"#asks-every-read-replica", p.Pos(fn.Pos()), false, !missing, "replica stat: "+prob)
 		return
 	}
-	ok, und, detail := cx.checkFanOut(fan, cx.fRRep, nil)
+	ok, und, detail := cx.checkFanOut(fan, cx.fRRep, false)
 	if ok {
-		if prm, isP := originValue(fan.op.Args()[2]).(*ssa.Parameter); !isP || prm.Parent() != fn {
+		if prm, isP := sc.res(fan.op.Args()[2]).(*ssa.Parameter); !isP || prm.Parent() != fn {
 			ok, detail = false, "the replicas are not asked about StatBlobs' own blobs argument"
 		}
 	}
 	cx.report(rule, key+"#asks-every-read-replica", p.Pos(fan.spawn.Pos()), ok, und, "stat "+detail)
 
-	cbs := FuncArgClosures(fan.op)
-	if len(cbs) != 1 {
-		r.Undecided(rule, key+"#report-once", p.Pos(fan.op.Pos()), "the callback handed to the replica's StatBlobs is not a function literal")
+	construct := key + "#report-once"
+	// the caller's fn
+	var userFn *ssa.Parameter
+	for _, prm := range fn.Params {
+		if _, ok := prm.Type().Underlying().(*types.Signature); ok {
+			userFn = prm
+		}
+	}
+	if userFn == nil {
+		brokenf("anchor unresolved: the callback parameter of %s", key)
+	}
+	// a direct hand-over of fn to the replica would bypass the de-duplication
+	cbVal := sc.res(fan.op.Args()[3])
+	if cbVal == ssa.Value(userFn) {
+		r.Violation(rule, construct, p.Pos(fan.op.Pos()), "the caller's fn is handed to every replica directly: a blob held by two read replicas is reported twice")
 		return
 	}
-	cb := cbs[0]
-	// calls of the caller's fn
+	var cb *ssa.Function
+	switch x := cbVal.(type) {
+	case *ssa.MakeClosure:
+		cb, _ = x.Fn.(*ssa.Function)
+	case *ssa.Function:
+		cb = x
+	}
+	if cb == nil || !sc.in[cb] {
+		r.Undecided(rule, construct, p.Pos(fan.op.Pos()), "the callback handed to the replica's StatBlobs is not a function literal, a method value or a function of this package")
+		return
+	}
+	// calls of the caller's fn in the callback's effective body
 	var userCalls []CallSite
-	for _, c := range CallsIn(cb, true) {
-		if c.Common().IsInvoke() || c.Callee() != nil {
-			continue
+	for _, f := range sc.fns {
+		for _, c := range CallsIn(f, false) {
+			if c.Common().IsInvoke() || c.Common().StaticCallee() != nil {
+				continue
+			}
+			if sc.res(c.Common().Value) == ssa.Value(userFn) {
+				userCalls = append(userCalls, c)
+			}
 		}
-		if prm, ok := originValue(c.Common().Value).(*ssa.Parameter); ok && prm.Parent() == fn {
-			userCalls = append(userCalls, c)
-		}
-	}
-	// also a direct hand-over of fn to the replica would bypass the de-duplication
-	if prm, ok := originValue(fan.op.Args()[3]).(*ssa.Parameter); ok && prm.Parent() == fn {
-		r.Violation(rule, key+"#report-once", p.Pos(fan.op.Pos()), "the caller's fn is handed to every replica directly: a blob held by two read replicas is reported twice")
-		return
 	}
 	if len(userCalls) == 0 {
-		r.Violation(rule, key+"#report-once", p.Pos(cb.Pos()), "the per-replica callback never calls the caller's fn")
+		r.Violation(rule, construct, p.Pos(cb.Pos()), "the per-replica callback never calls the caller's fn")
 		return
 	}
-	li := AnalyzeLocks(fn, LockSet{})
-	shared := func(v ssa.Value) bool { // declared once per StatBlobs call, outside any loop
+	shared := func(v ssa.Value) bool { // created once per StatBlobs call
 		in, ok := v.(ssa.Instruction)
-		return ok && in.Parent() == fn && c12InnermostLoop(in.Block()) == nil
+		return ok && sc.in[in.Parent()] && sc.oncePerCall(in)
 	}
 	for _, uc := range userCalls {
 		site := p.Pos(uc.Pos())
-		construct := key + "#report-once"
-		if uc.Fn != cb {
-			r.Undecided(rule, construct, site, "fn is called from a literal nested in the callback; not followed")
+		if !sc.under(uc.Fn, cb) || uc.IsGo() || uc.IsDefer() {
+			r.Undecided(rule, construct, site, "fn is called outside the per-replica callback's own effective body (or asynchronously); not followed")
+			continue
+		}
+		sync := true
+		for g := uc.Fn; g != cb; {
+			e := sc.enter(g)
+			if e == nil || e.kind != 'c' {
+				sync = false
+				break
+			}
+			g = e.site.Fn
+		}
+		if !sync {
+			r.Undecided(rule, construct, site, "fn is called from a function the callback starts asynchronously; not followed")
 			continue
 		}
 		// the function-wide mutex held here
-		lockPath := ""
-		for _, c := range CallsIn(cb, false) {
-			if k, path, ok := mutexOp(c); ok && k == "Lock" {
-				if cell, ok := varOf(c.Args()[0]); ok && shared(cell) && li.Holds(uc.Instr, path, 'W') {
-					lockPath = path
+		var lock c12Cell
+		haveLock := false
+		for _, f := range sc.fns {
+			if !sc.under(f, cb) {
+				continue
+			}
+			for _, c := range CallsIn(f, false) {
+				if k, addr, ok := c12MutexOp(c); ok && k == "Lock" {
+					if cl, ok := sc.cell(addr); ok && shared(cl.root) && sc.holds(uc.Instr, cl, cb, 0) {
+						lock, haveLock = cl, true
+					}
 				}
 			}
 		}
-		if lockPath == "" {
+		if !haveLock {
 			r.Violation(rule, construct, site, "fn is called without holding a mutex shared by all replicas' callbacks: two replicas reporting the same blob race on the need map and can both report it")
 			continue
 		}
 		// membership guard
 		var need *ssa.MakeMap
 		var lookup *ssa.Lookup
-		for _, f := range FactsAt(uc.Block()) {
+		for _, f := range sc.factsAt(uc.Block()) {
 			cond, val := c12StripNot(f.Cond, f.Val)
 			var lk *ssa.Lookup
 			switch x := cond.(type) {
@@ -1675,10 +3452,10 @@ func (cx *c12Ctx) statDedup(rule string) {
 					lk = l2
 				}
 			}
-			if lk == nil || !val {
+			if lk == nil || !val || !sc.under(lk.Parent(), cb) {
 				continue
 			}
-			if mm, ok := originValue(lk.X).(*ssa.MakeMap); ok && shared(mm) && c12RefOfParam(lk.Index, cb) {
+			if mm, ok := sc.res(lk.X).(*ssa.MakeMap); ok && shared(mm) && sc.refOfParam(lk.Index, cb) {
 				need, lookup = mm, lk
 			}
 		}
@@ -1686,24 +3463,34 @@ func (cx *c12Ctx) statDedup(rule string) {
 			r.Violation(rule, construct, site, "fn(sb) is not dominated by a positive membership test need[sb.Ref] on a map shared by all replicas' callbacks: a blob present on several read replicas is reported once per replica")
 			continue
 		}
-		if !li.Holds(lookup, lockPath, 'W') {
+		if !sc.holds(lookup, lock, cb, 0) {
 			r.Violation(rule, construct, site, "the membership test need[sb.Ref] is evaluated outside the mutex")
 			continue
 		}
-		// delete on the same path under the lock
-		var del CallSite
-		for _, c := range CallsIn(cb, false) {
-			if c12Builtin(c, "delete") && originValue(c.Args()[0]) == ssa.Value(need) && c12RefOfParam(c.Args()[1], cb) {
-				del = c
-			}
+		if !sc.heldFromTo(lookup, uc.Instr, lock, 0) {
+			r.Violation(rule, construct, site, "the mutex can be released between the membership test need[sb.Ref] and the call of fn: another replica's callback can pass the same test in between and the blob is reported twice")
+			continue
 		}
+		// delete on the same path under the lock
 		okDel := false
-		if del.Instr != nil && li.Holds(del.Instr, lockPath, 'W') {
-			if Precedes(del.Instr, uc.Instr) {
-				okDel = true
-			} else {
-				leaks := LeakingExits(PathQuery{Start: uc.Instr, Stop: func(in ssa.Instruction) bool { return in == ssa.Instruction(del.Instr) }, IgnorePanics: true})
-				okDel = len(leaks) == 0
+		for _, f := range sc.fns {
+			if !sc.under(f, cb) {
+				continue
+			}
+			for _, c := range CallsIn(f, false) {
+				if !c12Builtin(c, "delete") || sc.res(c.Args()[0]) != ssa.Value(need) || !sc.refOfParam(c.Args()[1], cb) {
+					continue
+				}
+				if !sc.holds(c.Instr, lock, cb, 0) {
+					continue
+				}
+				switch {
+				case sc.precedes(c.Instr, uc.Instr):
+					okDel = true
+				case c.Fn == uc.Fn:
+					leaks := LeakingExits(PathQuery{Start: uc.Instr, Stop: func(in ssa.Instruction) bool { return in == ssa.Instruction(c.Instr) }, IgnorePanics: true})
+					okDel = okDel || len(leaks) == 0
+				}
 			}
 		}
 		if !okDel {
@@ -1712,39 +3499,44 @@ func (cx *c12Ctx) statDedup(rule string) {
 		}
 		// need initialised with every requested blob before the fan-out
 		okInit := false
-		for _, b := range fn.Blocks {
-			for _, in := range b.Instrs {
-				mu, ok := in.(*ssa.MapUpdate)
-				if !ok || originValue(mu.Map) != ssa.Value(need) {
-					continue
-				}
-				l := c12InnermostLoop(b)
-				if l == nil || l.Idx == nil || !l.FromZeroStep1 || !(l.Header.Dominates(fan.spawn.Block())) {
-					continue
-				}
-				la, ok := c12LenArg(l.Bound)
-				if !ok {
-					continue
-				}
-				prm, ok := originValue(la).(*ssa.Parameter)
-				if !ok || prm.Parent() != fn {
-					continue
-				}
-				kl, ok := originValue(mu.Key).(*ssa.UnOp)
-				if !ok || kl.Op != token.MUL {
-					continue
-				}
-				ia, ok := kl.X.(*ssa.IndexAddr)
-				if !ok || originValue(ia.X) != ssa.Value(prm) || ia.Index != l.Idx {
-					continue
-				}
-				if c, ok := mu.Value.(*ssa.Const); ok && c.Value != nil && c.Value.String() == "true" && !c12SkipPath(l, b, nil) {
-					okInit = true
+		for _, f := range sc.fns {
+			for _, b := range f.Blocks {
+				for _, in := range b.Instrs {
+					mu, ok := in.(*ssa.MapUpdate)
+					if !ok || sc.res(mu.Map) != ssa.Value(need) {
+						continue
+					}
+					l := c12InnermostLoop(b)
+					if l == nil || l.Idx == nil || !l.FromZeroStep1 || l.Done == nil || len(l.Done.Instrs) == 0 {
+						continue
+					}
+					if !sc.precedes(l.Done.Instrs[0], fan.spawn.Instr) || c12InLoop(l.Header, fan.spawn.Block()) {
+						continue
+					}
+					la, ok := sc.lenArg(l.Bound)
+					if !ok {
+						continue
+					}
+					prm, ok := sc.res(la).(*ssa.Parameter)
+					if !ok || prm.Parent() != fn {
+						continue
+					}
+					kl, ok := originValue(mu.Key).(*ssa.UnOp)
+					if !ok || kl.Op != token.MUL {
+						continue
+					}
+					ia, ok := kl.X.(*ssa.IndexAddr)
+					if !ok || sc.res(ia.X) != ssa.Value(prm) || ia.Index != l.Idx {
+						continue
+					}
+					if c, ok := mu.Value.(*ssa.Const); ok && c.Value != nil && c.Value.String() == "true" && !c12SkipPath(l, b, nil) {
+						okInit = true
+					}
 				}
 			}
 		}
 		r.Check(okInit, rule, construct, site,
-			"fn(sb) runs under the function-wide mutex "+lockPath+", behind need[sb.Ref]==true on the function-wide map, with delete(need, sb.Ref) on the same path under the lock; need was set for every requested ref before the fan-out",
+			"fn(sb) runs under a mutex created once per StatBlobs call, behind need[sb.Ref]==true on a map created once per call, with delete(need, sb.Ref) on the same path under the lock; need was set for every requested ref before the fan-out",
 			"the need map is not filled with need[ref]=true for every element of the blobs argument before the replicas are asked: nothing (or not everything) would ever be reported")
 	}
 }
@@ -1752,10 +3544,16 @@ func (cx *c12Ctx) statDedup(rule string) {
 func (cx *c12Ctx) enumerateDelegates(rule string) {
 	p, r := cx.p, cx.r
 	fn := cx.method("EnumerateBlobs")
+	sc := cx.scope(fn)
 	construct := FuncKey(fn) + "#merged-over-read-replicas"
-	calls := FindCalls(fn, false, func(c CallSite) bool {
-		return c.IsStatic("perkeep.org/pkg/blobserver", "", "MergedEnumerateStorage")
-	})
+	var calls []CallSite
+	for _, f := range sc.fns {
+		for _, c := range CallsIn(f, false) {
+			if c.IsStatic("perkeep.org/pkg/blobserver", "", "MergedEnumerateStorage") {
+				calls = append(calls, c)
+			}
+		}
+	}
 	if len(calls) != 1 || calls[0].Value() == nil {
 		r.Violation(rule, construct, p.Pos(fn.Pos()), "EnumerateBlobs does not delegate to exactly one blobserver.MergedEnumerateStorage call: overlapping replicas would be enumerated with duplicates or out of order")
 		return
@@ -1763,17 +3561,17 @@ func (cx *c12Ctx) enumerateDelegates(rule string) {
 	c := calls[0]
 	args := c.Args()
 	bad := ""
-	if !cx.isFieldLoad(args[2], cx.fRRep) {
+	if !sc.isFieldLoad(args[2], cx.fRRep) {
 		bad = "the sources merged are not sto." + cx.fieldName(cx.fRRep)
 	}
 	// ctx, dest, after, limit are the method's own parameters (params[0] is the receiver)
 	for i, k := range map[int]int{0: 1, 1: 2, 3: 3, 4: 4} {
-		if k >= len(fn.Params) || originValue(args[i]) != ssa.Value(fn.Params[k]) {
+		if k >= len(fn.Params) || sc.res(args[i]) != ssa.Value(fn.Params[k]) {
 			bad = fmt.Sprintf("argument %d of MergedEnumerateStorage is not EnumerateBlobs' own parameter", i)
 		}
 	}
 	for _, ri := range Returns(fn) {
-		if !sameOriginStrict(ri.Results[0], c.Value()) {
+		if !sc.sameVal(ri.Results[0], c.Value()) {
 			bad = "a return does not hand back MergedEnumerateStorage's error"
 		}
 	}
@@ -1784,8 +3582,16 @@ func (cx *c12Ctx) enumerateDelegates(rule string) {
 // ---------------------------------------------------------------------------
 // Q-config
 
-// fieldStores lists the stores of fn to field f of a storage object.
-func (cx *c12Ctx) fieldStores(fn *ssa.Function, f int) []*ssa.Store {
+// fieldStores lists the stores of the scope's functions to field f of a storage object.
+func (sc *c12Scope) fieldStores(f int) []*ssa.Store {
+	var out []*ssa.Store
+	for _, fn := range sc.fns {
+		out = append(out, sc.cx.fieldStoresIn(fn, f)...)
+	}
+	return out
+}
+
+func (cx *c12Ctx) fieldStoresIn(fn *ssa.Function, f int) []*ssa.Store {
 	var out []*ssa.Store
 	for _, b := range fn.Blocks {
 		for _, in := range b.Instrs {
@@ -1799,56 +3605,81 @@ func (cx *c12Ctx) fieldStores(fn *ssa.Function, f int) []*ssa.Store {
 	return out
 }
 
-func c12ConfigCall(fn *ssa.Function, method, key string) *ssa.Call {
-	for _, c := range CallsIn(fn, false) {
-		if c.IsStatic("go4.org/jsonconfig", "Obj", method) && c.Value() != nil && len(c.Args()) >= 2 {
-			if s, ok := ConstString(c.Args()[1]); ok && s == key {
-				return c.Value()
+func (sc *c12Scope) configCall(method, key string) *ssa.Call {
+	for _, fn := range sc.fns {
+		for _, c := range CallsIn(fn, false) {
+			if c.IsStatic("go4.org/jsonconfig", "Obj", method) && c.Value() != nil && len(c.Args()) >= 2 {
+				if s, ok := ConstString(c.Args()[1]); ok && s == key {
+					return c.Value()
+				}
 			}
 		}
 	}
 	return nil
 }
 
+// storesOf: stores to field f whose value is v.
+func (sc *c12Scope) storesOf(f int, v ssa.Value) []*ssa.Store {
+	var out []*ssa.Store
+	for _, st := range sc.fieldStores(f) {
+		for _, pl := range sc.phiLeaves(st.Val, st.Block()) {
+			if sameOriginStrict(pl.val, v) || sc.sameVal(pl.val, v) {
+				out = append(out, st)
+				break
+			}
+		}
+	}
+	return out
+}
+
+func c12LastInstr(b *ssa.BasicBlock) ssa.Instruction { return b.Instrs[len(b.Instrs)-1] }
+
 func c12QConfig(cx *c12Ctx) {
 	const rule = "Q-config"
 	p, r := cx.p, cx.r
-	r.Floor(rule, 16)
+	// 7 clauses of the registered constructor + 1 other constructor + at least
+	// one write site per field (5); how many functions the writes are spread
+	// over is not part of the property
+	r.Floor(rule, 13)
 	fn := cx.ctor
+	sc := cx.scope(fn)
 	key := FuncKey(fn)
 	pos := p.Pos(fn.Pos())
 
-	backends := c12ConfigCall(fn, "RequiredList", "backends")
+	backends := sc.configCall("RequiredList", "backends")
+	isBackends := func(v ssa.Value) bool {
+		return sc.isFieldLoad(v, cx.fWPref) || backends != nil && (sameOriginStrict(v, backends) || sc.sameVal(v, backends))
+	}
 	isN := func(v ssa.Value) bool { // len(backends)
-		a, ok := c12LenArg(v)
-		if !ok {
-			return false
-		}
-		return cx.isFieldLoad(a, cx.fWPref) || backends != nil && sameOriginStrict(a, backends)
+		a, ok := sc.lenArg(v)
+		return ok && isBackends(a)
 	}
 	// success returns: nil error
-	var succ []ReturnInfo
-	for _, ri := range Returns(fn) {
-		if IsNilConst(ri.Results[ErrResultIndex(fn)]) {
-			succ = append(succ, ri)
-		}
-	}
+	succ, _ := sc.errLeaves(fn)
 	if len(succ) == 0 {
 		r.Undecided(rule, key+"#success-return", pos, "no return with a constant nil error in the constructor")
 		return
 	}
+	beforeSuccess := func(in ssa.Instruction) bool {
+		for _, lf := range succ {
+			if !sc.precedes(in, lf.ret) {
+				return false
+			}
+		}
+		return true
+	}
 
 	// (1) config keys feed the right fields; quorum default = all
+	mw := sc.configCall("OptionalInt", "minWritesForSuccess")
 	{
-		okKeys := backends != nil && len(cx.storesOf(fn, cx.fWPref, backends)) > 0
-		rb := c12ConfigCall(fn, "OptionalList", "readBackends")
-		okKeys = okKeys && rb != nil && len(cx.storesOf(fn, cx.fRPref, rb)) > 0
+		okKeys := backends != nil && len(sc.storesOf(cx.fWPref, backends)) > 0
+		rb := sc.configCall("OptionalList", "readBackends")
+		okKeys = okKeys && rb != nil && len(sc.storesOf(cx.fRPref, rb)) > 0
 		r.Check(okKeys, rule, key+"#config-keys", pos,
 			"config key backends feeds the write prefixes and readBackends the read prefixes",
 			"the write/read prefix fields are not filled from config keys backends/readBackends respectively")
-		mw := c12ConfigCall(fn, "OptionalInt", "minWritesForSuccess")
 		switch {
-		case mw == nil || len(cx.storesOf(fn, cx.fMin, mw)) == 0:
+		case mw == nil || len(sc.storesOf(cx.fMin, mw)) == 0:
 			r.Violation(rule, key+"#quorum-default-all", pos, "the quorum field is not set from config key minWritesForSuccess")
 		case !isN(mw.Call.Args[2]):
 			r.Violation(rule, key+"#quorum-default-all", p.Pos(mw.Pos()), "the default of minWritesForSuccess is not len(backends): an unconfigured replica set would acknowledge before all replicas stored the blob (documented default: all)")
@@ -1858,24 +3689,35 @@ func c12QConfig(cx *c12Ctx) {
 	}
 
 	// helper: a conditional default `if COND { obj.f = VAL }` whose test precedes every success return
-	condDefault := func(f int, valOK func(ssa.Value) bool, condOK func(cond ssa.Value, val bool) bool) (*ssa.Store, *ssa.BasicBlock) {
-		for _, st := range cx.fieldStores(fn, f) {
+	condDefault := func(f int, valOK func(ssa.Value) bool, condOK func(cond ssa.Value, val bool) bool) (*ssa.Store, ssa.Instruction) {
+		for _, st := range sc.fieldStores(f) {
 			if !valOK(st.Val) {
 				continue
 			}
-			for _, fact := range FactsAt(st.Block()) {
+			for _, fact := range sc.factsAt(st.Block()) {
 				cond, val := c12StripNot(fact.Cond, fact.Val)
-				if !condOK(cond, val) {
+				if !condOK(cond, val) || fact.At == nil {
 					continue
 				}
-				all := true
-				for _, ri := range succ {
-					if !(fact.At == ri.Ret.Block() || fact.At.Dominates(ri.Ret.Block())) {
-						all = false
-					}
+				if test := c12LastInstr(fact.At); beforeSuccess(test) {
+					return st, test
 				}
-				if all {
-					return st, fact.At
+			}
+		}
+		// the value is defaulted in a local and stored afterwards: the stored
+		// value merges VAL on the COND arm
+		for _, st := range sc.fieldStores(f) {
+			if _, isPhi := st.Val.(*ssa.Phi); !isPhi || !beforeSuccess(st) {
+				continue
+			}
+			for _, pl := range sc.phiLeaves(st.Val, st.Block()) {
+				if !valOK(pl.val) {
+					continue
+				}
+				for _, fact := range pl.facts {
+					if cond, val := c12StripNot(fact.Cond, fact.Val); condOK(cond, val) {
+						return st, st
+					}
 				}
 			}
 		}
@@ -1899,9 +3741,8 @@ func c12QConfig(cx *c12Ctx) {
 
 	// (2) configured 0 means all
 	{
-		mw := c12ConfigCall(fn, "OptionalInt", "minWritesForSuccess")
 		isMin := func(v ssa.Value) bool {
-			return cx.isFieldLoad(v, cx.fMin) || mw != nil && sameOriginStrict(v, mw)
+			return sc.isFieldLoad(v, cx.fMin) || mw != nil && (sameOriginStrict(v, mw) || sc.sameVal(v, mw))
 		}
 		st, _ := condDefault(cx.fMin, isN, isZeroTest(isMin))
 		if st != nil {
@@ -1912,9 +3753,9 @@ func c12QConfig(cx *c12Ctx) {
 	}
 
 	// (3) at least one backend
-	for _, ri := range succ {
+	for _, lf := range succ {
 		found := false
-		for _, f := range FactsAt(ri.Ret.Block()) {
+		for _, f := range lf.facts {
 			_, thr, rel, ok := c12Relation(f, isN)
 			if !ok {
 				continue
@@ -1923,26 +3764,28 @@ func c12QConfig(cx *c12Ctx) {
 				found = true
 			}
 		}
-		r.Check(found, rule, key+"#rejects-zero-replicas", c12Site(p, ri.Ret),
+		r.Check(found, rule, key+"#rejects-zero-replicas", c12Site(p, lf.ret),
 			"the success return is dominated by len(backends) != 0",
 			"a storage with zero write replicas can be returned: every receive would fall through with a nil error and nothing stored")
 	}
 
 	// (4) readBackends default to backends, before the read replicas are resolved
-	var readDefaultAt *ssa.BasicBlock
+	var readDefault *ssa.Store
+	var readDefaultTest ssa.Instruction
 	{
+		rb := sc.configCall("OptionalList", "readBackends")
+		isRPVal := func(v ssa.Value) bool {
+			return sc.isFieldLoad(v, cx.fRPref) || rb != nil && (sameOriginStrict(v, rb) || sc.sameVal(v, rb))
+		}
 		isRP := func(v ssa.Value) bool {
-			if cx.isFieldLoad(v, cx.fRPref) {
+			if isRPVal(v) {
 				return true
 			}
-			a, ok := c12LenArg(v)
-			return ok && cx.isFieldLoad(a, cx.fRPref)
+			a, ok := sc.lenArg(v)
+			return ok && isRPVal(a)
 		}
-		valOK := func(v ssa.Value) bool {
-			return cx.isFieldLoad(v, cx.fWPref) || backends != nil && sameOriginStrict(v, backends)
-		}
-		st, at := condDefault(cx.fRPref, valOK, isZeroTest(isRP))
-		readDefaultAt = at
+		st, test := condDefault(cx.fRPref, isBackends, isZeroTest(isRP))
+		readDefault, readDefaultTest = st, test
 		if st != nil {
 			r.OK(rule, key+"#read-defaults-to-write", c12Site(p, st), "an empty readBackends list is replaced by backends before any success return")
 		} else {
@@ -1951,28 +3794,24 @@ func c12QConfig(cx *c12Ctx) {
 	}
 
 	// (5)/(6) one replica per prefix, complete before success
-	fill := func(pref, rep int, what string, mustFollow *ssa.BasicBlock) {
+	fill := func(pref, rep int, what string, follow bool) {
 		construct := key + "#" + what + "-one-per-prefix"
-		var good *ssa.Store
+		var good ssa.Instruction
 		why := "no loop over sto." + cx.fieldName(pref) + " appends the resolved storage to sto." + cx.fieldName(rep)
-		for _, st := range cx.fieldStores(fn, rep) {
-			call, ok := st.Val.(*ssa.Call)
-			if !ok || !c12Builtin(CallSite{fn, call}, "append") || !cx.isFieldLoad(call.Call.Args[0], rep) {
-				continue
-			}
-			l := c12InnermostLoop(st.Block())
+		for _, ap := range sc.appendChains(rep) {
+			l := ap.loop
 			if l == nil || l.Idx == nil {
 				continue
 			}
-			if !l.FromZeroStep1 || !cx.lenOfField(l.Bound, pref) {
+			if !l.FromZeroStep1 || !sc.lenOfField(l.Bound, pref) {
 				why = "the loop filling sto." + cx.fieldName(rep) + " does not run over every element of sto." + cx.fieldName(pref)
 				continue
 			}
 			fromPrefix := false
-			for _, av := range c12AppendedValues(call.Call.Args[1]) {
-				if DependsOn(av, func(u ssa.Value) bool {
+			for _, av := range c12AppendedValues(ap.call.Call.Args[1]) {
+				if sc.dependsOn(av, func(u ssa.Value) bool {
 					ia, ok := u.(*ssa.IndexAddr)
-					return ok && cx.isFieldLoad(ia.X, pref) && ia.Index == l.Idx
+					return ok && sc.isFieldLoad(ia.X, pref) && ia.Index == l.Idx
 				}) {
 					fromPrefix = true
 				}
@@ -1981,30 +3820,28 @@ func c12QConfig(cx *c12Ctx) {
 				why = "the storage appended to sto." + cx.fieldName(rep) + " is not resolved from the current element of sto." + cx.fieldName(pref)
 				continue
 			}
-			if c12SkipPath(l, st.Block(), nil) {
+			if c12SkipPath(l, ap.call.Block(), nil) {
 				why = "some iteration over sto." + cx.fieldName(pref) + " continues without appending a replica: indexes of prefixes and replicas no longer correspond and fewer replicas exist than the quorum assumes"
 				continue
 			}
-			done := true
-			for _, ri := range succ {
-				if !(l.Done == ri.Ret.Block() || l.Done.Dominates(ri.Ret.Block())) {
-					done = false
-				}
-			}
-			if !done {
+			if l.Done == nil || len(l.Done.Instrs) == 0 || !beforeSuccess(l.Done.Instrs[0]) {
 				why = "a success return can be reached before the loop over sto." + cx.fieldName(pref) + " has finished"
 				continue
 			}
-			if mustFollow != nil {
+			if ap.final != nil && !beforeSuccess(ap.final) {
+				why = "the slice built from sto." + cx.fieldName(pref) + " is not installed as sto." + cx.fieldName(rep) + " before every success return"
+				continue
+			}
+			if follow {
 				// the prefixes iterated must be read after the defaulting
-				la, _ := c12LenArg(l.Bound)
-				ld, _ := originValue(la).(*ssa.UnOp)
-				if ld == nil || !(mustFollow.Dominates(ld.Block()) && mustFollow != ld.Block()) {
+				la, _ := sc.lenArg(l.Bound)
+				ld, _ := sc.res(la).(*ssa.UnOp)
+				if ld == nil || readDefaultTest == nil || !sc.precedes(readDefaultTest, ld) || sc.precedes(ld, readDefault) {
 					why = "the read prefixes are iterated before the empty-list default is applied"
 					continue
 				}
 			}
-			good = st
+			good = ap.call
 		}
 		if good != nil {
 			r.OK(rule, construct, c12Site(p, good), "every element of sto."+cx.fieldName(pref)+" is resolved and appended to sto."+cx.fieldName(rep)+" (or the constructor fails) before any success return")
@@ -2012,68 +3849,324 @@ func c12QConfig(cx *c12Ctx) {
 			r.Violation(rule, construct, pos, why)
 		}
 	}
-	fill(cx.fWPref, cx.fWRep, "write-replicas", nil)
-	fill(cx.fRPref, cx.fRRep, "read-replicas", readDefaultAt)
+	fill(cx.fWPref, cx.fWRep, "write-replicas", false)
+	fill(cx.fRPref, cx.fRRep, "read-replicas", true)
 
 	// (7) other constructors: quorum = number of write replicas
-	// (8) fields are written only on objects allocated in the same function
+	ix := cx.index()
+	checked := map[*ssa.Function]bool{}
+	for _, f := range ix.fns {
+		if !cx.allocates(f) {
+			continue
+		}
+		// the entry points that build a storage through f
+		for _, top := range cx.constructorsVia(f) {
+			if top == fn || checked[top] {
+				continue
+			}
+			checked[top] = true
+			tsc := cx.scope(top)
+			okQ := false
+			for _, st := range tsc.fieldStores(cx.fMin) {
+				a, ok := tsc.lenArg(st.Val)
+				if !ok {
+					continue
+				}
+				for _, ws := range tsc.fieldStores(cx.fWRep) {
+					if sameOriginStrict(ws.Val, a) || tsc.sameVal(ws.Val, a) {
+						okQ = true
+					}
+				}
+			}
+			r.Check(okQ, rule, FuncKey(top)+"#quorum-all", p.Pos(top.Pos()),
+				"sets the quorum to len of the very slice it installs as write replicas",
+				"constructs a replica storage whose quorum is not the number of its write replicas")
+		}
+	}
+
+	// (8) fields are written only on objects under construction
 	type fk struct {
 		fn *ssa.Function
 		f  int
 	}
 	writes := map[fk]*ssa.Store{}
+	bad := map[fk]string{}
 	var order []fk
-	for _, f := range p.FuncsIn(c12Rel) {
-		allocates := false
+	for _, f := range ix.fns {
 		for _, b := range f.Blocks {
 			for _, in := range b.Instrs {
-				switch x := in.(type) {
-				case *ssa.Alloc:
-					if pt, ok := x.Type().(*types.Pointer); ok && cx.isObj(pt.Elem()) {
-						if _, isPtr := pt.Elem().(*types.Pointer); !isPtr {
-							allocates = true
-						}
-					}
-				case *ssa.Store:
-					if g, ok := cx.fieldAddr(x.Addr); ok {
-						k := fk{f, g}
-						if _, dup := writes[k]; !dup {
-							order = append(order, k)
-						}
-						if prev := writes[k]; prev == nil || !c12FreshObj(prev) {
-							writes[k] = x
-						}
-						if !c12FreshObj(x) {
-							writes[k] = x
-						}
-					}
-				}
-			}
-		}
-		if allocates && f != fn {
-			okQ := false
-			for _, st := range cx.fieldStores(f, cx.fMin) {
-				a, ok := c12LenArg(st.Val)
+				st, ok := in.(*ssa.Store)
 				if !ok {
 					continue
 				}
-				for _, ws := range cx.fieldStores(f, cx.fWRep) {
-					if sameOriginStrict(ws.Val, a) {
-						okQ = true
-					}
+				g, ok := cx.fieldAddr(st.Addr)
+				if !ok {
+					continue
+				}
+				k := fk{f, g}
+				if _, dup := writes[k]; !dup {
+					order = append(order, k)
+					writes[k] = st
+				}
+				if why := cx.underConstruction(st, 0); why != "" && bad[k] == "" {
+					bad[k], writes[k] = why, st
 				}
 			}
-			r.Check(okQ, rule, FuncKey(f)+"#quorum-all", p.Pos(f.Pos()),
-				"sets the quorum to len of the very slice it installs as write replicas",
-				"constructs a replica storage whose quorum is not the number of its write replicas")
 		}
 	}
 	for _, k := range order {
 		st := writes[k]
-		r.Check(c12FreshObj(st), rule, FuncKey(k.fn)+"#writes-"+cx.fieldName(k.f), c12Site(p, st),
-			"field written only on the object this function allocated (construction time)",
-			"a replicaStorage field is modified after construction: replica sets and quorum are read without synchronisation and are assumed constant by every rule of this property")
+		r.Check(bad[k] == "", rule, FuncKey(k.fn)+"#writes-"+cx.fieldName(k.f), c12Site(p, st),
+			"field written only on an object under construction: one this function allocated, or one every caller of this unexported helper allocated and handed in",
+			"a replicaStorage field is modified after construction ("+bad[k]+"): replica sets and quorum are read without synchronisation and are assumed constant by every rule of this property")
 	}
+}
+
+// allocates: f allocates a storage object.
+func (cx *c12Ctx) allocates(f *ssa.Function) bool {
+	for _, b := range f.Blocks {
+		for _, in := range b.Instrs {
+			if x, ok := in.(*ssa.Alloc); ok {
+				if pt, ok := x.Type().(*types.Pointer); ok && cx.isObj(pt.Elem()) {
+					if _, isPtr := pt.Elem().(*types.Pointer); !isPtr {
+						return true
+					}
+				}
+			}
+		}
+	}
+	return false
+}
+
+// constructorsVia: the functions through which a storage allocated in f comes
+// into being: f itself when it is exported, used as a value or has no callers;
+// otherwise (an unexported helper that is only called) its callers, transitively.
+func (cx *c12Ctx) constructorsVia(f *ssa.Function) []*ssa.Function {
+	ix := cx.index()
+	var out []*ssa.Function
+	seen := map[*ssa.Function]bool{}
+	var walk func(g *ssa.Function, depth int)
+	walk = func(g *ssa.Function, depth int) {
+		if seen[g] {
+			return
+		}
+		seen[g] = true
+		callers := ix.callers[g]
+		helper := g.Parent() != nil || (g.Synthetic == "" && !token.IsExported(g.Name()))
+		if !helper || len(callers) == 0 || len(ix.valueUse[g]) > 0 || len(ix.makers[g]) > 1 || depth > c12MaxDepth {
+			out = append(out, g)
+			return
+		}
+		for _, c := range callers {
+			walk(c.Fn, depth+1)
+		}
+	}
+	walk(f, 0)
+	return out
+}
+
+// underConstruction: "" when the store writes a field of an object allocated
+// by the storing function, or handed in by every caller of an unexported
+// helper from an object under construction there; otherwise the reason.
+func (cx *c12Ctx) underConstruction(st *ssa.Store, depth int) string {
+	fa, ok := st.Addr.(*ssa.FieldAddr)
+	if !ok {
+		return "not a field store"
+	}
+	return cx.freshValue(fa.X, depth)
+}
+
+func (cx *c12Ctx) freshValue(v ssa.Value, depth int) string {
+	ix := cx.index()
+	v = originValue(v)
+	switch x := v.(type) {
+	case *ssa.Alloc:
+		return ""
+	case *ssa.FreeVar:
+		fn := x.Parent()
+		idx := -1
+		for i, f := range fn.FreeVars {
+			if f == x {
+				idx = i
+			}
+		}
+		mk := ix.makers[fn]
+		if idx < 0 || len(mk) == 0 || depth > c12MaxDepth {
+			return "the object is captured from an unknown place"
+		}
+		for _, mc := range mk {
+			b := mc.Bindings[idx]
+			// a captured variable holding the object: its stored values
+			if al, ok := b.(*ssa.Alloc); ok {
+				if _, isPtrVar := al.Type().(*types.Pointer).Elem().(*types.Pointer); isPtrVar {
+					for _, s := range storesTo(al) {
+						if why := cx.freshValue(s.Val, depth+1); why != "" {
+							return why
+						}
+					}
+					continue
+				}
+			}
+			if why := cx.freshValue(b, depth+1); why != "" {
+				return why
+			}
+		}
+		return ""
+	case *ssa.Parameter:
+		fn := x.Parent()
+		if depth > c12MaxDepth {
+			return "helper chain too deep"
+		}
+		if fn.Parent() == nil && (fn.Synthetic != "" || token.IsExported(fn.Name())) {
+			return "the object is a parameter of " + FuncKey(fn) + ", which anyone may call"
+		}
+		if len(ix.valueUse[fn]) > 0 || len(ix.makers[fn]) > 0 && fn.Parent() == nil {
+			return FuncKey(fn) + " is used as a value"
+		}
+		if fn.Parent() == nil && fn.Signature.Recv() != nil && len(cx.p.InvokeSites(fn)) > 0 {
+			return FuncKey(fn) + " can be reached through an interface"
+		}
+		callers := ix.callers[fn]
+		if len(callers) == 0 {
+			return "the object is a parameter of " + FuncKey(fn) + ", which has no static caller"
+		}
+		if fn.Parent() == nil {
+			if all := cx.p.StaticCallers(fn); len(all) != len(callers) {
+				return FuncKey(fn) + " is also called from outside the package"
+			}
+		}
+		pi := -1
+		for i, q := range fn.Params {
+			if q == x {
+				pi = i
+			}
+		}
+		for _, c := range callers {
+			cc := c.Common()
+			if cc.IsInvoke() || pi < 0 || pi >= len(cc.Args) {
+				return "call of " + FuncKey(fn) + " not followed"
+			}
+			if why := cx.freshValue(cc.Args[pi], depth+1); why != "" {
+				return "called from " + FuncKey(c.Fn) + ": " + why
+			}
+		}
+		return ""
+	}
+	// the result of a function of the package that hands back an object it allocated
+	if call, idx := c12CallOf(v); call != nil && depth <= c12MaxDepth {
+		if g := call.Call.StaticCallee(); g != nil && g.Blocks != nil && g.Pkg != nil && RelPkg(g.Pkg.Pkg) == c12Rel {
+			rets := Returns(g)
+			for _, ri := range rets {
+				if idx >= len(ri.Results) {
+					return "result of " + FuncKey(g) + " not followed"
+				}
+				if IsNilConst(ri.Results[idx]) {
+					continue
+				}
+				if why := cx.freshValue(ri.Results[idx], depth+1); why != "" {
+					return "returned by " + FuncKey(g) + ": " + why
+				}
+			}
+			if len(rets) > 0 {
+				return ""
+			}
+		}
+	}
+	return "the object is not one this function (or the callers of this helper) allocated"
+}
+
+// c12Append is one `x = append(x, elem)` that builds the slice which ends up in
+// a replica field: directly on the field, or on a local slice that is later
+// stored into the field (possibly returned from a helper first).
+type c12Append struct {
+	call  *ssa.Call
+	loop  *c12Loop
+	final ssa.Instruction // the store installing a locally built slice into the field (nil: appended in place)
+}
+
+func (sc *c12Scope) appendChains(rep int) []c12Append {
+	var out []c12Append
+	isAppend := func(v ssa.Value) *ssa.Call {
+		call, ok := v.(*ssa.Call)
+		if !ok || !c12Builtin(CallSite{call.Parent(), call}, "append") || len(call.Call.Args) != 2 {
+			return nil
+		}
+		return call
+	}
+	for _, st := range sc.fieldStores(rep) {
+		// in place: sto.f = append(sto.f, x)
+		if call := isAppend(st.Val); call != nil && sc.isFieldLoad(call.Call.Args[0], rep) {
+			out = append(out, c12Append{call, c12InnermostLoop(st.Block()), nil})
+			continue
+		}
+		// a locally built slice: follow the stored value back to the loop-carried
+		// `s = append(s, x)` it is the final value of
+		seen := map[ssa.Value]bool{}
+		var walk func(v ssa.Value, depth int)
+		walk = func(v ssa.Value, depth int) {
+			if v == nil || seen[v] || depth > 12 {
+				return
+			}
+			seen[v] = true
+			v2 := sc.res(v)
+			if v2 != v {
+				walk(v2, depth+1)
+				return
+			}
+			switch x := v.(type) {
+			case *ssa.Phi:
+				for _, e := range x.Edges {
+					walk(e, depth+1)
+				}
+			case *ssa.Extract:
+				if c, ok := x.Tuple.(*ssa.Call); ok {
+					if g := sc.calleeIn(c); g != nil {
+						for _, ri := range Returns(g) {
+							if x.Index < len(ri.Results) {
+								walk(ri.Results[x.Index], depth+1)
+							}
+						}
+					}
+				}
+			case *ssa.Call:
+				if call := isAppend(x); call != nil {
+					// the slice appended to must be the same loop-carried variable
+					carried := false
+					var back func(a ssa.Value, d int)
+					back = func(a ssa.Value, d int) {
+						if d > 6 {
+							return
+						}
+						if a == ssa.Value(call) {
+							carried = true
+							return
+						}
+						if ph, ok := a.(*ssa.Phi); ok {
+							for _, e := range ph.Edges {
+								if e != a {
+									back(e, d+1)
+								}
+							}
+						}
+					}
+					back(call.Call.Args[0], 0)
+					if carried {
+						out = append(out, c12Append{call, c12InnermostLoop(call.Block()), st})
+					}
+					return
+				}
+				if g := sc.calleeIn(x); g != nil && x.Call.Signature().Results().Len() == 1 {
+					for _, ri := range Returns(g) {
+						if len(ri.Results) == 1 {
+							walk(ri.Results[0], depth+1)
+						}
+					}
+				}
+			}
+		}
+		walk(st.Val, 0)
+	}
+	return out
 }
 
 // c12AppendedValues returns the element values of the variadic argument of
@@ -2099,25 +4192,4 @@ func c12AppendedValues(arg ssa.Value) []ssa.Value {
 		}
 	}
 	return out
-}
-
-// storesOf: stores of fn to field f whose value is v.
-func (cx *c12Ctx) storesOf(fn *ssa.Function, f int, v ssa.Value) []*ssa.Store {
-	var out []*ssa.Store
-	for _, st := range cx.fieldStores(fn, f) {
-		if sameOriginStrict(st.Val, v) {
-			out = append(out, st)
-		}
-	}
-	return out
-}
-
-// c12FreshObj: the store writes a field of an object allocated in the same function.
-func c12FreshObj(st *ssa.Store) bool {
-	fa, ok := st.Addr.(*ssa.FieldAddr)
-	if !ok {
-		return false
-	}
-	al, ok := originValue(fa.X).(*ssa.Alloc)
-	return ok && al.Parent() == st.Parent()
 }
